@@ -12,2090 +12,766 @@ Definition show_fres (r : fres) : string :=
   end.
 Definition check (rs : list rune) : string := digest (show_fres (format_res rs)).
 Definition full (rs : list rune) : string := show_fres (format_res rs).
-Eval vm_compute in ("<<<M3854>>>" ++ check (runes_of_ascii "packet u {
-    @leftPad('\x00')
-    match pack as Logon {
-        """ ++ [28040; 24687]%N ++ runes_of_ascii """ : As,
-        ""`tick`"" : asx,
-        0 : float,
-    },
-    // @lengthOf(
-    // " ++ [128512]%N ++ runes_of_ascii " emoji
-    string trueish @calculatedFrom(""a	b""),// " ++ [27880; 37322]%N ++ runes_of_ascii "
-    match matchKey as options1 {
-        //x
-        /// triple
-        00 : lengthOf,
-        // @lengthOf(
-        //x
-    },
-    match roots as Header {
-        42 : string_,
-        [
-            10, ""a\""b"", ""\" ++ [233]%N ++ runes_of_ascii """, ""\" ++ [233]%N ++ runes_of_ascii """, ""CRC32"",
-            ""1"", ""it's"", ""abc""
-        ] : lengthOf,
-        ""CRC32"" : As,
-    },
-    char[] falsey,//	t
-    chars @lengthOf(a1),
-    @tag(255)
-    @lengthOf(x)
-    match metadata as rootA {
-        007 : trueish,
-        00 : metadata,
-        [0123456789] : x_y_z,
-        0 : Logon,
-    },
-    @leftPad('\x00')
-    zchar[1] pack `" ++ [233]%N ++ runes_of_ascii "`,
-    @leftPad()
-    match x_y_z as Z9_ {
-        // a // b
-        //x
-        """ ++ [128512]%N ++ runes_of_ascii """ : leftPad,
-    },
-    repeat Z9_ `tab	here`,// trailing space 
-}
-
-options {
-    uint8x = string;
-}
-
-MetaData MetaDataX {
-    i64_ uint8x,
-    zchar[0] float,
-    char[] packetx `it's`,
-}
-
-root packet crc {
-    @tag(1)
-    i64_ @calculatedFrom(""" ++ [233]%N ++ runes_of_ascii "t" ++ [233]%N ++ runes_of_ascii """),//x
-    @calculatedFrom(""\n"")
-    @calculatedFrom(""it's"")
-    @calculatedFrom(""a\\"")
-    chars uint8x,
-    @tag(7)
-    match Logon as string_ {
-        3 : a1,
-        // " ++ [128512]%N ++ runes_of_ascii " emoji
-    },
-    int16 i64_ `
-        `,
-    @tag(1)
-    falsey T,
-}
-
-root packet Foo {
-    // trailing space 
-    repeat zchar {
-        i64_ @calculatedFrom(""" ++ [233]%N ++ runes_of_ascii "t" ++ [233]%N ++ runes_of_ascii """) `line1
-                line2`,
-        match matchKey as zchar {
-            ""1"" : As,
-            [0] : f32a,
-            [""x y""] : body,
-            ""it's"" : _x,
-            [""" ++ [28040; 24687]%N ++ runes_of_ascii """, 007] : matchKey,
-            ""x y"" : x_y_z,
-        },
-        zchar[7] metadata @lengthOf(_x) `// not a comment`,
-        float @lengthOf(matchKey),
-    },
-    packetx @calculatedFrom(""// no comment""),
-    roots @lengthOf(falsey),// " ++ [128512]%N ++ runes_of_ascii " emoji
-    u8 calculatedFrom `{ , }`,
-    char[10] repeatCount `crlf
-        line`,
-    @lengthOf(float)
-    int16 int `two words`,
-    repeat u64 x,
-    i8i8 @lengthOf(Packet) `" ++ [28040; 24687; 31867; 22411]%N ++ runes_of_ascii "`,
-}")).
-Eval vm_compute in ("<<<M390>>>" ++ check (runes_of_ascii "packet calculatedFrom {
-    i8 i8i8 ,//
-@tag(3 )// trailing space 
-repeat	uint16 u128 , u64 x_y_z``,@tag( 00
-    ) @leftPad ( // " ++ [128512]%N ++ runes_of_ascii " emoji
-' ') u
-//x
-// trailing space 
-{//x
-match // `tick` ""quote"" 'q'
-uint8x as i64_{007 : As
-    ,
-007
-    : len
-, 42//
-:
-asx , 10 :
-    // trailing space 
-    BodyLength 0123456789 :
-calculatedFrom // " ++ [128512]%N ++ runes_of_ascii " emoji
-,
-[ 3 ,
-""it's""  ,""\n"" // trailing space 
-, """ ++ [28040; 24687]%N ++ runes_of_ascii """ , 0123456789
-, 42  ,
-255 ,
-""" ++ [233]%N ++ runes_of_ascii "t" ++ [233]%N ++ runes_of_ascii """] :
-//x
-//	t
-tag ,
-    } // trailing space 
-,
-    match pack
-    // `tick` ""quote"" 'q'
-    as charz {""CRC32"" :int
-}
-,len
-@calculatedFrom(
-// a // b
-/// triple
-""packet"" )  , }
-,}
-    packet calculatedFrom
-{	repeat packetx{ repeat string
-    options1 , }
-    ,int64 msg_type, @tag( 3 ) leftPad float
-    , match body as /// triple
-Pad { 255:calculatedFrom , [
-""it's""
-, """" ,
-""CRC32""	,
-4294967296 , 10  ,
-""" ++ [233]%N ++ runes_of_ascii "t" ++ [233]%N ++ runes_of_ascii """  ,
-0123456789
-    ]	: trueish 10 :Z9_ , [
-    ""a\\""
-    ] : roots	,
-    // c
-    0123456789
-: rootA , },
-}options
-{	options1=0123456789 } options
-{  }// " ++ [27880; 37322]%N ++ runes_of_ascii "
-root
-packet asx{ @lengthOf(	a1 ) match u8x as lengthOf
-{
-// `tick` ""quote"" 'q'
-//x
-[ 00, 00 ]:
-    Packet
-    ,  [  ""CRC32""
-    /// triple
-    , ""abc""  ,
-//x
-// c
-3 ]	:x_y_z[""" ++ [28040; 24687]%N ++ runes_of_ascii """ ,
-7	] :
-    packetx""a	b"" :
-    As""a	b"" : x_y_z , ""// no comment"": u,
-} , zchar[ 0
-// trailing space 
-//x
-]i64_ ,
-match stringy as // " ++ [27880; 37322]%N ++ runes_of_ascii "
-zchar
-    { [ ""// no comment"" ,10
-,1,  """ ++ [128512]%N ++ runes_of_ascii """ ] : Foo
-, } , @rightPad
-    // trailing space 
-    ( '\x00') // trailing space 
-float
-,u64	Foo `say ""hi""`
-, matchKey, // packet A { u8 x, }
-uint16 tag
-    `crlf
-line` ,string // a // b
-u8x
-`two words` ,  string pack @calculatedFrom( ""packet""  )
-, @calculatedFrom( ""`tick`"" //x
-) float64 Logon , }
-// " ++ [128512]%N ++ runes_of_ascii " emoji
-")).
-Eval vm_compute in ("<<<M3645>>>" ++ check (runes_of_ascii "packet zchar {
-    char[] string_,
-    // @lengthOf(
-    msg_type,
-    match roots as metadata {
-        3 : Logon,
-        [
-            ""a\\"", ""1"", 3, 00, ""a\\"",
-            7, 65535, 3
-        ] : x_y_z,
-        0123456789 : o,
-        ""\" ++ [233]%N ++ runes_of_ascii """ : x,
-        ""CRC32"" : Foo,
-    },
-    char Header `u8 x,`,
-}//	t
-
-options {
-}
-
-packet As {
-    zchar[10] roots,
-    char[7] calculatedFrom @lengthOf(body),
-    char stringy @lengthOf(metadata),
-    Pad u128,
-    @calculatedFrom(""it's"")
-    Z9_,
-    match falsey as MetaDataX {
-        4294967296 : float,
-        //x
-        3 : Pad,
-        1 : T,
-    },
-    @tag(3)
-    char[] A @calculatedFrom(""it's""),
-    o tag,
-    @lengthOf(x)
-    zchar[4294967296] rootA `
-    `,
-}
-
-root packet Logon {
-    repeat _x {
-        leftPad `crlf
-        line`,
-    },
-    repeat i8 Packet,
-    MetaDataX `// not a comment`,
-    asx `two words`,
-    repeat lengthOf tag,
-    @calculatedFrom(""CRC32"")
-    // @lengthOf(
-    match repeatCount as BodyLength {
-        """ ++ [128512]%N ++ runes_of_ascii """ : len,
-        [
-            255, ""a\\"", 0123456789, ""CRC32"", 7,
-            42
-        ] : repeatCount,
-    },
-    i64_ msg_type `crlf
-    line`,
-}
-
-packet repeatCount {
-    @calculatedFrom(""a\""b"")
-    match a1 as matchKey {
-        00 : options1,
-        4294967296 : x_y_z,
-        [3, ""a	b"", 0123456789] : i64_,
-        0 : leftPad,
-        ""`tick`"" : int,
-        [""" ++ [28040; 24687]%N ++ runes_of_ascii """] : Z9_,
-    },
-}")).
-Eval vm_compute in ("<<<M4487>>>" ++ check (runes_of_ascii "
-MetaData crc 
-    // trailing space 
-	// packet A { u8 x, }
-{
-    Z9_ metadata `u8 x,`
-	, 
-}	packet	// packet A { u8 x, }
-
-matchKey 
-{leftPad,
-
-    string
-x
-
-    , 
-	// " ++ [27880; 37322]%N ++ runes_of_ascii "
-  }
-packet
-x  { match
-
-    msg_type
-
-    as 
-MetaDataX	//
-	{ // @lengthOf(
-  00
-
-:
-roots
-
-    , }	, char[255 ] 
-
-    // packet A { u8 x, }
-falsey
-
-`" ++ [28040; 24687; 31867; 22411]%N ++ runes_of_ascii "` 
-    //	t
-    	, 
-@lengthOf(
-Logon
-	) 
-@tag(42  ) @lengthOf(
-    Foo
-)
-    repeat //	t
-	char[ 1]
-	u,
-// packet A { u8 x, }
-	  //	t
-i8 chars@calculatedFrom(
-
-    ""a\""b"" 
-    // @lengthOf(
-    // trailing space 
-),@calculatedFrom(  """ ++ [128512]%N ++ runes_of_ascii """ 	 /// triple
-    )
-    @calculatedFrom(
-""`tick`"") f64 
-Logon  , @lengthOf(
-	calculatedFrom 
-)  //
-
-repeatCount
-{ repeat Packet
-    `two words`,
-
-    match
-	i64_
-as	charz
-{ ""a\\""	:
-	int [	""\" ++ [233]%N ++ runes_of_ascii """,	0123456789
-,""" ++ [28040; 24687]%N ++ runes_of_ascii """
-	]
-:Pad ,
-1
-
-:
-As 
-,""CRC32""
-:
-Header,
-    }  ,	char[
-007  // packet A { u8 x, }
-    ] tag `doc` ,
-
-repeat As `" ++ [233]%N ++ runes_of_ascii "` ,// c
-	}
-    ,
-	MetaDataX
-
-    @calculatedFrom(
-	""""
-	)
-
-`line1
-line2`  , // c
-    } 
-options	{  _x	= false
-	As = zchar[ 65535 ]
-
-    BodyLength
-
-    =  int64
-o = false
-	; calculatedFrom =
-'0'
-; }
-root packet
-Packet
-{// @lengthOf(
-  falsey
-	Packet
-	, 
-@lengthOf( 
-BodyLength  )
-	@lengthOf(uint8x	)@rightPad
-
-    (	)
-string 
-float `// not a comment` 
-,  }
-
-")).
-Eval vm_compute in ("<<<M4254>>>" ++ check (runes_of_ascii "
-options  { 
-Pad	//x
-
-  =""""
-	; // trailing space 
-	  zchar
-=
-    char[ 
-65535  ] 
-Foo  // c
-	= 
-1
-
-;  }
-	packet
-
-    asx  {
-repeat
-    char  u128 
-        // " ++ [27880; 37322]%N ++ runes_of_ascii "
-	//x
-  ,  i16 Pad	,	x
-
-@lengthOf(
-
-Packet
-
-)  `
-` 
-, @tag(
-10
-)  repeat	float32
-
-    i64_`// not a comment`
-
-    , @calculatedFrom(
-
-"""" ) @calculatedFrom(
-    """"
-
-    )
-
-@calculatedFrom(
-	""it's"" ) 
-repeat	BodyLength  Foo ``	, /// triple
-
-	matchKey	As 
-`say ""hi""`,
-@rightPad
-
-    (
-
-    ' '
-
-) i8i8  BodyLength
-
-`" ++ [233]%N ++ runes_of_ascii "`,}
-
-packet
-    Pad
-{
-@tag(
-
+Eval vm_compute in ("<<<M95>>>" ++ check (runes_of_ascii "MetaData chars {} packet lengthOf
+{ @lengthOf(_x )uint16 /// triple
+Z9_`" ++ [28040; 24687; 31867; 22411]%N ++ runes_of_ascii "`, repeat BodyLength{ repeat
+    u8x zchar  , } ,a1	,
+    // " ++ [27880; 37322]%N ++ runes_of_ascii "
+    T @calculatedFrom( ""\" ++ [233]%N ++ runes_of_ascii """)
+, match //	t
+calculatedFrom
+    as string_
+    // " ++ [27880; 37322]%N ++ runes_of_ascii "
+    { """ ++ [233]%N ++ runes_of_ascii "t" ++ [233]%N ++ runes_of_ascii """
+    :// `tick` ""quote"" 'q'
+_x // " ++ [128512]%N ++ runes_of_ascii " emoji
+, ""a	b""
+    : zchar [ ""x y"",
     10
-	)
-    match  o// a // b
-
-as
-
-    zchar{
-
-    [ ""abc""	]
-
-    : 
-i8i8,
-""// no comment""
-
-:
-
-    T
-,  } 
-, u128 f32a
-
-    `{ , }`	,
-
-    @rightPad
-(
-)  float64 Packet
-
-    @lengthOf(
-    chars )
-
-`it's`
-	,@rightPad( '0'  /// triple
-	)  repeat
-    zchar Packet `" ++ [28040; 24687; 31867; 22411]%N ++ runes_of_ascii "`  ,
-	@tag(
-
-00
-	// a // b
-  /// triple
-)
-@rightPad
-
-    ('0' ) match u  as  pack  {
-
-""" ++ [28040; 24687]%N ++ runes_of_ascii """
-
-    : repeatCount
-""abc""
-:
-
-Foo
-	7  :A	, ""\" ++ [233]%N ++ runes_of_ascii """ 	 // packet A { u8 x, }
-	:
-
-    _x
+    ,	""abc""
 ,
-}
-
-    ,  As
-
-    @lengthOf(int
-)
-//
-	  // " ++ [128512]%N ++ runes_of_ascii " emoji
-  , 
-char[ 7
-
-    ]
-rootA@lengthOf(
-leftPad )`{ , }` 
-,repeat  f64 x,@calculatedFrom(
-""" ++ [128512]%N ++ runes_of_ascii """
-
-)
-char[]  u128 ,
-    }
+""packet""
+, // c
+""{,}"" //
+,00] :  u128 ,""abc"":x_y_z
+    ,  """ ++ [233]%N ++ runes_of_ascii "t" ++ [233]%N ++ runes_of_ascii """
+    : // packet A { u8 x, }
+packetx
+} // a // b
+, zchar[
+    1 ]// " ++ [128512]%N ++ runes_of_ascii " emoji
+A
+    // " ++ [27880; 37322]%N ++ runes_of_ascii "
+    @lengthOf( float
+    // `tick` ""quote"" 'q'
+    ) `say ""hi""`
+    // trailing space 
+    , repeat f32 asx
+// " ++ [27880; 37322]%N ++ runes_of_ascii "
+// " ++ [128512]%N ++ runes_of_ascii " emoji
+,
+    // " ++ [128512]%N ++ runes_of_ascii " emoji
+    @rightPad
+    ( ' ' // a // b
+)	char[] msg_type `say ""hi""`,
+} packet Pad
+// " ++ [27880; 37322]%N ++ runes_of_ascii "
+// " ++ [27880; 37322]%N ++ runes_of_ascii "
+{ As @lengthOf( rootA )
+`say ""hi""` , repeat
+    _x // trailing space 
+{
+    Logon
+Foo, // `tick` ""quote"" 'q'
+falsey
+MetaDataX ,
+    }  ,msg_type
+    // trailing space 
+    roots `line1
+line2`,pack pack , chars	`crlf
+line` ,@lengthOf(lengthOf) match lengthOf
+    as o { 3
+    : falsey
+    , } ,}packet // trailing space 
+o {// packet A { u8 x, }
+i64_`{ , }` ,
+match MetaDataX as Foo { """ ++ [233]%N ++ runes_of_ascii "t" ++ [233]%N ++ runes_of_ascii """ :
+    leftPad ,
+[	00 ] : f32a
+[ ""`tick`"",
+    0123456789
+]
+: float ,
+""it's"" : pack
+, ""`tick`"" :
+charz } ,
+options1
+    leftPad ,// packet A { u8 x, }
+string body //
+, @calculatedFrom(
+""{,}""  )As
+    //	t
+    , // " ++ [128512]%N ++ runes_of_ascii " emoji
+match u as
+    Packet
+    {
+    ""it's"" :
+_x	, 10 : BodyLength , ""\n"" :
+float 4294967296 :falsey , 007 :	charz
+,00 :stringy , },  repeat string_ ,
+}root packet
+Foo	{ repeat
+    // " ++ [27880; 37322]%N ++ runes_of_ascii "
+    char[	7 ] lengthOf `
+`
+    ,
+//	t
+//x
+@lengthOf( Packet ) repeat // `tick` ""quote"" 'q'
+i32 float , options1 _x	`{ , }`
+, }
 ")).
-Eval vm_compute in ("<<<M1403>>>" ++ check (runes_of_ascii "options {
-	StringPrefixLenType = u16;
-	ArrayPrefixLenType = u16;
+Eval vm_compute in ("<<<M381>>>" ++ check (runes_of_ascii "options {
+    StringPrefixLenType = u16;
+    ArrayPrefixLenType = u16;
 }
 
 packet SampleBinary {
-	uint16 MsgType `" ++ [28040; 24687; 31867; 22411]%N ++ runes_of_ascii "`,
-	u16 BodyLenght @lengthOf(Body) `" ++ [28040; 24687; 20307; 38271; 24230]%N ++ runes_of_ascii "`,
-	match MsgType as Body {
-		1 : Logon,
-		2 : Logout,
-		3 : Heartbeat,
-		4 : RiskControlRequest,
-		5 : RiskControlResponse,
-	},
-		@calculatedFrom(""CRC32"")
-	u32 Ckecksum `" ++ [26657; 39564; 21644]%N ++ runes_of_ascii "`,
+    uint16 MsgType `" ++ [28040; 24687; 31867; 22411]%N ++ runes_of_ascii "`,
+    u16 BodyLenght @lengthOf(Body) `" ++ [28040; 24687; 20307; 38271; 24230]%N ++ runes_of_ascii "`,
+    match MsgType as Body {
+        1 : Logon,
+        2 : Logout,
+        3 : Heartbeat,
+        4 : RiskControlRequest,
+        5 : RiskControlResponse,
+    },
+    @calculatedFrom(""CRC32"")
+    u32 Ckecksum `" ++ [26657; 39564; 21644]%N ++ runes_of_ascii "`,
 }
 
 packet Logon {
-	 @leftPad('0')
-	char[10] UserName `" ++ [29992; 25143; 21517]%N ++ runes_of_ascii "`,
-	string Password `" ++ [23494; 30721]%N ++ runes_of_ascii "`,
-	uint64 ClientId `" ++ [23458; 25143; 31471]%N ++ runes_of_ascii "ID`,
-	u16 HeartbeatInterval `" ++ [24515; 36339; 38388; 38548]%N ++ runes_of_ascii "`,
+    @leftPad('0')
+    char[10] UserName `" ++ [29992; 25143; 21517]%N ++ runes_of_ascii "`,
+    string Password `" ++ [23494; 30721]%N ++ runes_of_ascii "`,
+    uint64 ClientId `" ++ [23458; 25143; 31471]%N ++ runes_of_ascii "ID`,
+    u16 HeartbeatInterval `" ++ [24515; 36339; 38388; 38548]%N ++ runes_of_ascii "`,
 }
 
 packet Logout {
-	  @rightPad('0')
-	char[10] UserName `" ++ [29992; 25143; 21517]%N ++ runes_of_ascii "`,
-	uint64 ClientId `" ++ [23458; 25143; 31471]%N ++ runes_of_ascii "ID`,
+    @rightPad('0')
+    char[10] UserName `" ++ [29992; 25143; 21517]%N ++ runes_of_ascii "`,
+    uint64 ClientId `" ++ [23458; 25143; 31471]%N ++ runes_of_ascii "ID`,
 }
 
 packet Heartbeat {
 }
 
 packet RiskControlRequest {
-	string UniqueOrderId `" ++ [21807; 19968; 35746; 21333; 21495]%N ++ runes_of_ascii "`,
-	char[16] ClOrdID `" ++ [23458; 25143; 35746; 21333; 21495]%N ++ runes_of_ascii "`,
-	char[3] MarketID `" ++ [24066; 22330]%N ++ runes_of_ascii "id`,
-	char[12] SecurityID `" ++ [35777; 21048; 20195; 30721]%N ++ runes_of_ascii "`,
-	char Side `" ++ [20080; 21334; 26041; 21521]%N ++ runes_of_ascii "`,
-	char OrderType `" ++ [35746; 21333; 31867; 22411]%N ++ runes_of_ascii "`,
-	u64 Price `" ++ [20215; 26684]%N ++ runes_of_ascii "`,
-	u32 Qty `" ++ [25968; 37327]%N ++ runes_of_ascii "`,
-	repeat string ExtraInfo `" ++ [38468; 21152; 20449; 24687]%N ++ runes_of_ascii "`,
-	repeat SubOrder {
-			char[16] ClOrdID `" ++ [23376; 35746; 21333; 21495]%N ++ runes_of_ascii "`,
-			u64 Price `" ++ [23376; 35746; 21333; 20215; 26684]%N ++ runes_of_ascii "`,
-			u32 Qty `" ++ [23376; 35746; 21333; 25968; 37327]%N ++ runes_of_ascii "`,
-		},
+    string UniqueOrderId `" ++ [21807; 19968; 35746; 21333; 21495]%N ++ runes_of_ascii "`,
+    char[16] ClOrdID `" ++ [23458; 25143; 35746; 21333; 21495]%N ++ runes_of_ascii "`,
+    char[3] MarketID `" ++ [24066; 22330]%N ++ runes_of_ascii "id`,
+    char[12] SecurityID `" ++ [35777; 21048; 20195; 30721]%N ++ runes_of_ascii "`,
+    char Side `" ++ [20080; 21334; 26041; 21521]%N ++ runes_of_ascii "`,
+    char OrderType `" ++ [35746; 21333; 31867; 22411]%N ++ runes_of_ascii "`,
+    u64 Price `" ++ [20215; 26684]%N ++ runes_of_ascii "`,
+    u32 Qty `" ++ [25968; 37327]%N ++ runes_of_ascii "`,
+    repeat string ExtraInfo `" ++ [38468; 21152; 20449; 24687]%N ++ runes_of_ascii "`,
+    repeat SubOrder {
+        char[16] ClOrdID `" ++ [23376; 35746; 21333; 21495]%N ++ runes_of_ascii "`,
+        u64 Price `" ++ [23376; 35746; 21333; 20215; 26684]%N ++ runes_of_ascii "`,
+        u32 Qty `" ++ [23376; 35746; 21333; 25968; 37327]%N ++ runes_of_ascii "`,
+    },
 }
 
 packet RiskControlResponse {
-	string UniqueOrderId `" ++ [21807; 19968; 35746; 21333; 21495]%N ++ runes_of_ascii "`,
-	i32 Status `" ++ [29366; 24577]%N ++ runes_of_ascii "`,
-	string Msg `" ++ [32467; 26524; 20449; 24687]%N ++ runes_of_ascii "`,
-	repeat Detail,
+    string UniqueOrderId `" ++ [21807; 19968; 35746; 21333; 21495]%N ++ runes_of_ascii "`,
+    i32 Status `" ++ [29366; 24577]%N ++ runes_of_ascii "`,
+    string Msg `" ++ [32467; 26524; 20449; 24687]%N ++ runes_of_ascii "`,
+    repeat Detail,
 }
 
 packet Detail {
-	string RuleName `" ++ [35268; 21017; 21517; 31216]%N ++ runes_of_ascii "`,
-	u16 Code `" ++ [21407; 22240; 20195; 30721]%N ++ runes_of_ascii "`,
+    string RuleName `" ++ [35268; 21017; 21517; 31216]%N ++ runes_of_ascii "`,
+    u16 Code `" ++ [21407; 22240; 20195; 30721]%N ++ runes_of_ascii "`,
 }")).
-Eval vm_compute in ("<<<M4365>>>" ++ check (runes_of_ascii "packet  lengthOf {
-
-crc  @calculatedFrom( 
-""""
-
-    ) `two words`, 
-@lengthOf(crc
-)
-    // c
-  @calculatedFrom(
-
-    ""x y"" )
-u16 Logon `line1
-line2`
-    ,
-}  MetaData  u128{ 
-}  packet
-len
-	{ 
-match options1
-    as pack
-{
-    00
-
-: 
-BodyLength
-	,
-
-    }
-
-    ,  @calculatedFrom( ""a	b""  )
-    asx Z9_  ``
-	, @rightPad
-()u32 calculatedFrom
-
-    @lengthOf( asx )
-
-`doc`, @calculatedFrom(
-""" ++ [28040; 24687]%N ++ runes_of_ascii """
-)	uint8x ,  repeat  zchar[// " ++ [128512]%N ++ runes_of_ascii " emoji
-	007 ] u128
-,stringy
-{ repeat
-
-zchar[
-
-3
-    ] 
-A
-    ,
-repeat	i64
-
-o/// triple
-
-  ``
-
-,
-f32  // @lengthOf(
-packetx @calculatedFrom( ""\" ++ [233]%N ++ runes_of_ascii """
-),
-packetx	charz 
-,
-    }
-    ,
-match
-
-    int as
-Z9_  {
-	""a\\"" : 
-crc 
-    // " ++ [128512]%N ++ runes_of_ascii " emoji
-  // " ++ [128512]%N ++ runes_of_ascii " emoji
-    ,
-""""
-    /// triple
-: trueish ,	[
-00
-, ""\" ++ [233]%N ++ runes_of_ascii """ , 
-4294967296
-    ]
-	:  Packet
-
-, 
-}, 
-
-/// triple
-
-	// packet A { u8 x, }
-
-	u8
-
-// packet A { u8 x, }
-	/// triple
-  msg_type
-    // @lengthOf(
-	  //
-  	@lengthOf(	i64_  )  ,
-}	root packet
-A
-{
-
-    BodyLength@lengthOf( stringy
-
-    ) ,
-rootA 
-As ,
-	repeat BodyLength
-options1	`a\`,
-}
-
-")).
-Eval vm_compute in ("<<<M3550>>>" ++ check (runes_of_ascii "
-options
-
-{ 
-StringPrefixLenType
-    = u8;
-    ArrayPrefixLenType
-
-    =
-	u32 ;
-	FixedStringPadFromLeft	= 
-false
-
-;
-FixedStringPadChar
-	=	' ';
-
-}
-    packet
-    Party  {repeat 
-i16
-Qty, repeat
-
-    string 
-Tail
-, i8
-OrderId
-
-    ,
-
-i8  msgKind
-    ,
-}
-    packet
-    Ack {
-Party
-,repeat
-InRef20 {  Party,
-
-    int8 tag7
-
-    ,  char[ 5 
-]OrderId,	zchar[ 7  ]  Tail
-
-    , char[] 
-count ,
-    InPrice45
-
-{
-Party	, char[
-1 
-]Px
-
-, 
-}
-, },
-
-char[ 12
-]
-	price , int8 sym,
-}
-packet	Reject
-
-    {repeat
-
-InPrice47 { Party  ,} ,  zchar[ 4
-
-]	x
-
-    , 
-repeat
-Ack  ,
-
-    zchar[
-	2] 
-Ref
-,repeat
-    Party ,
-
-    }packet  Cancel
-{
-Reject,
-
-    repeat
-    string  f1 
-, uint16
-
-OrderId
-
-,
-
-u8
-    Acct  ,
-    int8 msgKind,}  root packet 
-Fill{ u8	count
-
-, char[] 
-tag7
-    ,
-
-zchar[
-7
-]Acct
-,u32
-    OrderId
-	,u32
-Note
-	@lengthOf(
-	Body
-	) 
-,
-	match
-    OrderId  as
-
-Body {
-    106 :Cancel,196
-
-    :
-	Reject 
-, 74 :  Party
-    ,75
-: Ack	,
-}
-    , }
-")).
-Eval vm_compute in ("<<<M4378>>>" ++ check (runes_of_ascii "packet body {
-    match u as f32a {
-        ""// no comment"" : float,
-    },
+Eval vm_compute in ("<<<M276>>>" ++ check (runes_of_ascii "
+packet body {match u as f32a {  ""// no comment""	:
+    float ,}	,
     // trailing space 
-    float32 int,
-    char[] tag `u8 x,`,
-    @lengthOf(body)
-    repeat i64_ crc,
-    @leftPad('0')
-    float64 zchar,// packet A { u8 x, }
-    @lengthOf(A)
-    @leftPad()
-    @lengthOf(int)
+    float32 int ,
+    char[]tag `u8 x,`
+    // packet A { u8 x, }
+    , @lengthOf( body ) repeat // " ++ [27880; 37322]%N ++ runes_of_ascii "
+i64_ crc
+,@leftPad ('0' ) float64 zchar
+    , // packet A { u8 x, }
+@lengthOf( A)
+@leftPad  ( ) @lengthOf( int
+)
     //
-    crc @calculatedFrom(""1""),
-}
-
-root packet body {
+    crc	@calculatedFrom( ""1"") ,
+    }  root packet
+    body{
     /// triple
-    @lengthOf(T)
-    repeat u128 `line1
-    line2`,
-    string BodyLength,
-    @calculatedFrom(""x y"")
-    char[] zchar @calculatedFrom(""a\""b"") `" ++ [28040; 24687; 31867; 22411]%N ++ runes_of_ascii "`,
-    falsey trueish,/// triple
-    @rightPad('\x00')
-    @lengthOf(As)
-    @tag(4294967296)
-    repeat char[] uint8x,
-    packetx,
-    @tag(7)
-    //
-    i64 roots @calculatedFrom(""" ++ [233]%N ++ runes_of_ascii "t" ++ [233]%N ++ runes_of_ascii """) `// not a comment`,
-    @calculatedFrom(""x y"")
-    /// triple
-    f64 float @lengthOf(Packet),
-    @tag(4294967296)
-    u32 lengthOf @calculatedFrom(""\" ++ [233]%N ++ runes_of_ascii """),
-    @tag(10)
-    Foo,
-}
-
-packet leftPad {
-}
-
-options {
-    i8i8 = zchar[7]
-}")).
-Eval vm_compute in ("<<<M3513>>>" ++ check (runes_of_ascii "options {
-    LittleEndian = true;
-    StringPrefixLenType = u32;
-    FixedStringPadChar = '0';
-}
-packet Logout {
-    repeat InMsgkind49 {
-        u8 pad0,
-    },
-    repeat char[5] seqNo,
-    repeat u8 price,
-}
-packet Party {
-    zchar[7] Qty,
-}
-packet Logon {
-    repeat InRef10 {
-        string price,
-        char[] sym,
-        repeat Logout,
-    },
-    repeat char[3] count,
-    repeat Party,
-    char[] tag7,
-    @rightPad('0') char[2] clOrdID,
-}
-packet Order {
-    InTail13 {
-        Party,
-    },
-    repeat char[4] count,
-}
-root packet Cancel {
-    Logout,
-    @leftPad('0') char[9] msgKind,
-    string lastPx,
-    string tag7,
-    zchar[1] OrderId,
-    repeat Party,
-    u16 sym,
-    u16 Acct @lengthOf(Body),
-    match sym as Body {
-        [24, 44] : Logout,
-        160 : Order,
-        91 : Logon,
-        43 : Party,
-    },
-    u16 Tail @calculatedFrom(""CR\
-C32""),
-}
-")).
-Eval vm_compute in ("<<<M381>>>" ++ check (runes_of_ascii "MetaData// " ++ [128512]%N ++ runes_of_ascii " emoji
-A  { repeatCount f32a `it's`  ,} root packet rootA { @lengthOf(
-//
-// trailing space 
-Foo ) @rightPad ('0'	)
-@calculatedFrom(
-""{,}"" ) int16 u8x ,
-    @leftPad (	' ' //	t
-) @calculatedFrom( // c
-""it's""
-) f64 metadata `two words`
-    , //x
-char[] T `{ , }` ,}
-    packet crc{ int8 float @lengthOf( u
-    // @lengthOf(
-    )`" ++ [28040; 24687; 31867; 22411]%N ++ runes_of_ascii "`
-    //x
-    , // " ++ [128512]%N ++ runes_of_ascii " emoji
-string options1  `
-`	,
-    @calculatedFrom(
-""x y"" )
-x_y_z o , /// triple
-@tag( 007	)  a1
-@calculatedFrom( ""a\\"" ) ,
-}
-    root
-    packet Foo
-    { repeat i16 chars ,Logon @calculatedFrom(""\" ++ [233]%N ++ runes_of_ascii """ )  ,
-@calculatedFrom(
-""packet""  )
-    x_y_z
-// packet A { u8 x, }
-// trailing space 
-`say ""hi""` ,
-repeat string
-Foo
-, repeat metadata
-i8i8`crlf
-line`
-// packet A { u8 x, }
-// @lengthOf(
-,@calculatedFrom(
-    ""a	b"" ) char[] charz @calculatedFrom(""""
-    )
-    ,}
-")).
-Eval vm_compute in ("<<<M4328>>>" ++ check (runes_of_ascii "packet chars {
-    // c
-    string metadata,
-    i32 u8x @calculatedFrom(""`tick`""),
-    repeat char[] stringy,
-    char[10] pack `u8 x,`,
-    o,
-    falsey @calculatedFrom(""`tick`"") `it's`,
-    @leftPad()
-    u32 body `u8 x,`,
-    @calculatedFrom(""packet"")
-    char metadata `// not a comment`,
-    // " ++ [27880; 37322]%N ++ runes_of_ascii "
-    @lengthOf(A)
-    float64 _x @lengthOf(Header),
-    body,
-}
-
-packet Header {
-    falsey,
-    match trueish as lengthOf {
-        ""packet"" : i8i8,
-        ""x y"" : falsey,
-        [""\" ++ [233]%N ++ runes_of_ascii """] : zchar,
-        00 : float,
-        ""\n"" : f32a,
-    },
-    string A `two words`,
-    repeat char[0] Z9_ `two words`,
-    repeat Z9_ x,
-    char trueish,
-}
-
-MetaData x_y_z {
-    float32 x `a\`,
-    u128 i64_ `a\`,
-    x_y_z trueish,
-    u16 i64_,
-}
-
-root packet pack {
-}
-
-options {
-    msg_type = 007;
-}")).
-Eval vm_compute in ("<<<M1010>>>" ++ check (runes_of_ascii "packet int { char[] // a // b
-crc`it's` , } packet metadata{pack
-    Logon , @tag( 00 )
-    len { repeat u8x
-leftPad`" ++ [28040; 24687; 31867; 22411]%N ++ runes_of_ascii "` ,
-repeat u16 i64_ , } , @lengthOf( x
-) repeat T MetaDataX`tab	here`
-    ,match
-    //x
-    matchKey
-    as lengthOf {
-""a\\""
-    :	_x ,	[/// triple
-255 , 00 // `tick` ""quote"" 'q'
-]: chars	,
-[ ""it's"",
-    0 ]// `tick` ""quote"" 'q'
-:
-    crc,0 :matchKey ,
-""\" ++ [233]%N ++ runes_of_ascii """
-// " ++ [128512]%N ++ runes_of_ascii " emoji
-// a // b
-: //
-rootA ""x y"" // trailing space 
-: leftPad,
-}
-    /// triple
-    , @tag(
-    255)float32 options1 @calculatedFrom( ""`tick`"") , @rightPad (  ) i64 Packet `it's` ,repeat zchar[ 255 ] metadata
-`tab	here` , /// triple
-@rightPad ( '\x00' )// trailing space 
-repeat i16 chars `" ++ [233]%N ++ runes_of_ascii "` , A
-/// triple
-// packet A { u8 x, }
-@lengthOf(
-    // c
-    BodyLength ), }
-")).
-Eval vm_compute in ("<<<M423>>>" ++ check (runes_of_ascii "MetaData
-i8i8 {
-A u128  , } /// triple
-packet  tag	{ repeat string_ falsey
-`doc`,repeat Z9_
-{ Header Logon `doc` // packet A { u8 x, }
-,
-int16 uint8x// `tick` ""quote"" 'q'
-@lengthOf( body  ) ,
-char[]  lengthOf , },
-@lengthOf( asx )repeat
-matchKey ,  @leftPad ( ' ' ) @rightPad (
-// " ++ [128512]%N ++ runes_of_ascii " emoji
-// " ++ [27880; 37322]%N ++ runes_of_ascii "
-' ' ) Z9_ `{ , }`
-    , char[
-1]
-    len	`{ , }` ,
-} // trailing space 
-options {
-chars  = ""1""	trueish// c
-= // " ++ [27880; 37322]%N ++ runes_of_ascii "
-""a	b""u =
-true ;crc ='0' ;
-} packet
-leftPad { @leftPad( ' ') // packet A { u8 x, }
-zchar	i64_ ,
-match options1
-    as // c
-string_ {
-[ ""a\""b"" , ""packet"" , ""a\\"" , """ ++ [128512]%N ++ runes_of_ascii """ ] : i64_ ,  42/// triple
-:
-Z9_ ,
-    },
-zchar[
-    00 ]trueish , @rightPad // trailing space 
-( ' '  ) packetx options1
-`line1
-line2` , } //")).
-Eval vm_compute in ("<<<M2>>>" ++ check (runes_of_ascii "
-packet int{ len	T , }MetaData trueish { // packet A { u8 x, }
-}
-    packet BodyLength { @calculatedFrom( ""packet"" )
-@calculatedFrom(
-    ""CRC32"" )
-    // c
+    @lengthOf( T
+    ) repeat
+u128 `line1
+line2` ,
+string // `tick` ""quote"" 'q'
+BodyLength , @calculatedFrom( ""x y"" ) char[] zchar @calculatedFrom(
+    ""a\""b"")	`" ++ [28040; 24687; 31867; 22411]%N ++ runes_of_ascii "` //x
+, falsey//	t
+trueish	, /// triple
+@rightPad // @lengthOf(
+( '\x00'  )	@lengthOf( As) @tag( 4294967296  )repeat char[] uint8x , packetx,
     @tag(
-00 ) char[ 4294967296 ] stringy, @lengthOf(
-leftPad
-)// c
-char zchar ,@lengthOf( MetaDataX	)@tag(10) // " ++ [128512]%N ++ runes_of_ascii " emoji
-@rightPad ( '0') options1 matchKey//
-`{ , }`
-    // packet A { u8 x, }
-    , @tag( 42
-    ) @tag( 1 ) @tag( 10
-) char[] // c
-stringy
-`doc` , msg_type `" ++ [233]%N ++ runes_of_ascii "` ,
-@lengthOf(trueish )body {	repeat o stringy `crlf
-line` , repeat u32 i8i8 ,
-    char[65535] stringy
-`a\` ,
-    //x
-    }
-    ,
-@calculatedFrom(""packet""	) matchKey/// triple
-, @tag( 4294967296 ) uint32 rootA @lengthOf( trueish ) ,string body `u8 x,` , }")).
-Eval vm_compute in ("<<<M853>>>" ++ check (runes_of_ascii "options { metadata =
-    7	matchKey= 42 ;
-    A= ""`tick`"" ;
-    matchKey = ""a\\"" u = """ ++ [128512]%N ++ runes_of_ascii """
-}
-    MetaData//	t
-lengthOf  { //	t
-matchKey Pad, } packet// " ++ [128512]%N ++ runes_of_ascii " emoji
-float{ @rightPad( )
-char[] int
-@lengthOf(
-    falsey ),
-// " ++ [27880; 37322]%N ++ runes_of_ascii "
-// trailing space 
-@tag( 42 )
-    repeat
-zchar[
-    1	] o `" ++ [28040; 24687; 31867; 22411]%N ++ runes_of_ascii "`	,
-@calculatedFrom( """ ++ [233]%N ++ runes_of_ascii "t" ++ [233]%N ++ runes_of_ascii """)repeat
-_x tag // " ++ [27880; 37322]%N ++ runes_of_ascii "
-,
-    @rightPad ( ' ' )float64 matchKey
-    @lengthOf( u8x	) , @leftPad ( '\x00' )
-    // trailing space 
-    i8i8
-    { char[] msg_type@calculatedFrom( ""// no comment""	) , } ,
-    repeat char[	255
-// trailing space 
-// a // b
-] i8i8,
-}
-options {matchKey = // trailing space 
-1 float = // packet A { u8 x, }
-""\" ++ [233]%N ++ runes_of_ascii """
-; }
-/// triple
-")).
-Eval vm_compute in ("<<<M1116>>>" ++ check (runes_of_ascii "packet MetaDataX { Foo , @rightPad( ' '
-// " ++ [128512]%N ++ runes_of_ascii " emoji
-// c
-) match options1 as
-    o { ""a\""b""
-// c
-// packet A { u8 x, }
-:
-T[7 , ""// no comment""
-//	t
-//
-, ""{,}"" ,
-7 ,	0 , 0 ,	""packet"" , 1 ] :
-u128 , }	,@calculatedFrom( ""x y"" )// @lengthOf(
-zchar[ 0123456789] Packet	,
-    @rightPad ( '\x00'
-    // packet A { u8 x, }
-    )  repeat chars	x_y_z , repeat packetx leftPad , match uint8x as crc
-{ [ """ ++ [233]%N ++ runes_of_ascii "t" ++ [233]%N ++ runes_of_ascii """  , ""CRC32"" ]
-// packet A { u8 x, }
-//
-: body
-, }
-,@calculatedFrom(
-""it's"" ) i8 zchar ,@lengthOf( MetaDataX )@rightPad ( ) @lengthOf( falsey) int , i8
-trueish `say ""hi""` ,
-@lengthOf(
-matchKey	)repeat A // trailing space 
-`a\` ,//x
-}
-")).
-Eval vm_compute in ("<<<M774>>>" ++ check (runes_of_ascii "MetaData
-chars{ } root packet
-leftPad
-{
-@calculatedFrom(// " ++ [128512]%N ++ runes_of_ascii " emoji
-""it's"" ) @calculatedFrom( ""\n"")@leftPad
-( '\x00' )
-repeat zchar[10
-]Z9_ `" ++ [28040; 24687; 31867; 22411]%N ++ runes_of_ascii "`
-, } root // @lengthOf(
-packet matchKey
-{ @leftPad
-( '0' ) zchar[ 3
-    // trailing space 
-    ]
-As,
-A
-    asx ,
-@lengthOf(
-    // packet A { u8 x, }
-    int
-)
-    @leftPad ( ) repeat string	chars	, @tag( 0123456789
-)@tag( 007
-) match
-    MetaDataX
-    as	charz {
-7 :	x_y_z
-, [
-    ""packet""
-    // @lengthOf(
-    ]: //x
-roots , [""\n"" ]	:
-A
-, 7 :T , 42  : matchKey  ""x y""
-: i64_ , } , } // " ++ [27880; 37322]%N ++ runes_of_ascii "
-options {body
-    = ""1""  ; x =char[/// triple
-10
-] ; } 	 ")).
-Eval vm_compute in ("<<<M4266>>>" ++ check (runes_of_ascii "
-
-  // top
-  packet
-	// c0
-  trueish
-// c1
-{
-
-// c2
-
-repeat 
-      // c3
-    u32
-
-// c4
-	MetaDataX
-	    // c5
-`doc`
-        // c6
-, 
-	    // c7
-
-Header
-// c8
-{
-    // c9
-  packetx 
-        // c10
-    o
-// c11
-  `u8 x,` 
-// c12
-    ,
-
-// c13
-    	} 
-// c14
-    	, 
-    // c15
-  @leftPad
-// c16
-  (
-	// c17
-
-'\x00' 
-	    // c18
-  ) 
-    // c19
-  repeat 
-	// c20
-
-  char[
-
-// c21
-  0123456789
-	// c22
-
-]
-    // c23
-  repeatCount 
-// c24
-,
-        // c25
-
-  }
-    // c26
-packet
-	    // c27
-  Packet 
-  // c28
-    	{ 
-	// c29
-	} 
-    // c30
- 
-")).
-Eval vm_compute in ("<<<M472>>>" ++ check (runes_of_ascii "packet
-    chars{@lengthOf(
-//
-// packet A { u8 x, }
-Foo
-    ) @tag(
-65535 )@calculatedFrom(  ""a	b""
-) match stringy as
-    float { 10
-:trueish ,[ 4294967296 ,""a\\""
-/// triple
-// trailing space 
-,255 , ""a\""b"" ,0,""" ++ [128512]%N ++ runes_of_ascii """, ""`tick`""] :Header }
-    ,
-}packet u8x { int
+7 )
     //
-    @calculatedFrom(
-    """ ++ [233]%N ++ runes_of_ascii "t" ++ [233]%N ++ runes_of_ascii """
-) // packet A { u8 x, }
-`" ++ [28040; 24687; 31867; 22411]%N ++ runes_of_ascii "` //	t
-,@leftPad
-( )A int
-    , @tag( 10
-    )
-match roots // `tick` ""quote"" 'q'
-as a1{ ""x y"" : u // `tick` ""quote"" 'q'
-,
-    }
-,} MetaData falsey {	i8 metadata
-    `{ , }`
-, } // trailing space ")).
-Eval vm_compute in ("<<<M976>>>" ++ check (runes_of_ascii "root packet uint8x{ @tag( 7 ) @leftPad ( ) // a // b
-repeat Logon {  chars @calculatedFrom( /// triple
-""x y""  )	`tab	here`
-    //x
-    ,
-match falsey
+    i64 roots
 // `tick` ""quote"" 'q'
-// c
-as uint8x { 7
-    :
-Logon,[ ""\n""
-,42
-    // trailing space 
-    ]
-:repeatCount ,
-10 : x , """ ++ [28040; 24687]%N ++ runes_of_ascii """
-    :i64_ , // c
-}
-    ,u128
-    @calculatedFrom( ""a	b"") `crlf
-line`  ,  }
 // " ++ [27880; 37322]%N ++ runes_of_ascii "
-// `tick` ""quote"" 'q'
-,
-    } packet charz
-    //x
-    { @lengthOf( Packet)
-    // " ++ [27880; 37322]%N ++ runes_of_ascii "
-    i64 // trailing space 
-lengthOf
-`tab	here` ,/// triple
-}")).
-Eval vm_compute in ("<<<M562>>>" ++ check (runes_of_ascii "MetaData	Z9_
-    { char[ 00 ] i64_ `say ""hi""` ,
-char
-Foo
-, char[	10 ] uint8x ,zchar[ 65535 ]
-    float // @lengthOf(
-`// not a comment` , f32
-body `two words` , //x
-i32
-    body
-    `{ , }` //	t
-,
-    } root
-// trailing space 
-// trailing space 
-packet// @lengthOf(
-i64_{
-    // @lengthOf(
-    }
-MetaData options1 { i64 i8i8
-`" ++ [28040; 24687; 31867; 22411]%N ++ runes_of_ascii "` , Logon metadata
-    `tab	here` , i64_ calculatedFrom // c
-`" ++ [28040; 24687; 31867; 22411]%N ++ runes_of_ascii "`	,}
-options
-{
-charz=
-""a\""b"" ;
-chars = ' ' ; Header = 10 ;  i64_ =""\n"" ;	}
-")).
-Eval vm_compute in ("<<<M852>>>" ++ check (runes_of_ascii "packet charz	{ @lengthOf(
-x_y_z
-    )match
-msg_type as msg_type{ ""a	b"" :
-packetx ,}
-, repeat	zchar[255 ] // a // b
-i8i8 `tab	here` ,
-    char[	255] i8i8 @lengthOf(
-    i64_/// triple
-)// c
-, }
-root
-packet matchKey { zchar[3 ] body`crlf
-line` ,
-@calculatedFrom(
-    ""x y"" )
-char[	00 ]leftPad `u8 x,` ,} // packet A { u8 x, }
-packet u8x  { @tag(00 ) metadata
-    {
-    repeat lengthOf
-    {zchar[
-0 ] _x @calculatedFrom( ""it's""  ) `say ""hi""`
-, } , }	,
-}
-")).
-Eval vm_compute in ("<<<M844>>>" ++ check (runes_of_ascii "packet
-u128	{ string MetaDataX
-@lengthOf(
-matchKey ) , @lengthOf( calculatedFrom )
-// " ++ [128512]%N ++ runes_of_ascii " emoji
-// " ++ [128512]%N ++ runes_of_ascii " emoji
-string // packet A { u8 x, }
-uint8x `it's` , As @calculatedFrom(	""" ++ [233]%N ++ runes_of_ascii "t" ++ [233]%N ++ runes_of_ascii """)
-    ,
-} MetaData repeatCount{
-    // c
-    zchar[
-    7 ]	msg_type // " ++ [128512]%N ++ runes_of_ascii " emoji
-,// @lengthOf(
-string trueish,u
-As`doc`  ,
-zchar
-T	, string roots// c
-`doc`,
-} root packet o //
-{repeat zchar[ 007
-// a // b
-//x
-] u8x , repeat	char[4294967296 ]
-    x ,u8x
-    `{ , }` , }")).
-Eval vm_compute in ("<<<M646>>>" ++ check (runes_of_ascii "root	packet	options1 {@rightPad (
-' ' ) calculatedFrom @calculatedFrom(""x y"") , @rightPad	()
-match  lengthOf as
-    Logon
-    {""1"" //
-:Z9_,""it's""	:/// triple
-metadata,
-}	, @lengthOf(  o)match
-options1
-as//	t
-As {
-    255 :
-u8x,	""""
-:
-    uint8x , [ 007, ""`tick`"" , 0123456789]
-:
-    // `tick` ""quote"" 'q'
-    T ,""\" ++ [233]%N ++ runes_of_ascii """ : //x
-As 7 // a // b
-: Z9_ ,},
-} MetaData pack	{
-    string As
-    , Header body `two words`, i32
-f32a ,}
-")).
-Eval vm_compute in ("<<<M736>>>" ++ check (runes_of_ascii "options {} packet
-calculatedFrom { } packet T{ @tag(
-    42 ) match	len as
-matchKey {
-007  :
-o
-    , ""a\""b""
-: calculatedFrom [  00//
-,
-42  ,
-0 , 00 , 7 ]:
-trueish
-,	""packet"" // @lengthOf(
-: MetaDataX , }, int @calculatedFrom( ""a\""b""
-)`" ++ [233]%N ++ runes_of_ascii "` ,
-@lengthOf(zchar) @tag( 65535 ) repeat string // c
-uint8x , } MetaData leftPad
-    // `tick` ""quote"" 'q'
-    {
-}
-    //
-    packet tag {	repeat Z9_ x_y_z `a\` ,}
-")).
-Eval vm_compute in ("<<<M4222>>>" ++ check (runes_of_ascii "root packet metadata {
-    // packet A { u8 x, }
-    @rightPad(' ')
-    @leftPad('\x00')
-    f64 a1 `u8 x,`,// trailing space 
-    char[7] metadata @lengthOf(Logon),
-    @calculatedFrom(""\n"")
-    char[4294967296] repeatCount,
-    @tag(65535)
-    zchar[255] chars @lengthOf(stringy),
-    zchar {
-        zchar @lengthOf(crc),
-        uint64 Packet `crlf
-        line`,
-    },
+@calculatedFrom( """ ++ [233]%N ++ runes_of_ascii "t" ++ [233]%N ++ runes_of_ascii """
+)  `// not a comment`
+    , @calculatedFrom( ""x y"" )
     /// triple
-}")).
-Eval vm_compute in ("<<<M3507>>>" ++ check (runes_of_ascii "options {
-    LittleEndian = false;
-    StringPrefixLenType = u32;
-    ArrayPrefixLenType = u16;
-}
-packet Party {
-    @leftPad('0') char[12] Ref,
-    repeat char[6] x,
-}
-packet Logon {
-    uint32 clOrdID,
-    Party,
-}
-root packet Ack {
-    zchar[2] f1,
-    u32 seqNo,
-    u32 Side2 @lengthOf(Body),
-    match seqNo as Body {
-        43 : Logon,
-        93 : Party,
-    },
-}
-")).
-Eval vm_compute in ("<<<M116>>>" ++ check (runes_of_ascii "options//	t
-{
-BodyLength
-    = ""{,}"" tag	=
-    ""// no comment"" ; } options {
-    charz
-= '\x00' ; // a // b
-repeatCount
-= 255// c
-; _x
-=
-    """ ++ [128512]%N ++ runes_of_ascii """
-    ; Foo= '0'	a1 ='0'
-//x
-//
-}root packet falsey { i64 packetx@lengthOf( Header//	t
-)`" ++ [28040; 24687; 31867; 22411]%N ++ runes_of_ascii "` ,
-len @lengthOf( roots )
-`a\` , zchar	@lengthOf( MetaDataX
-    //x
-    )
-    `line1
-line2`
-    , } // packet A { u8 x, }")).
-Eval vm_compute in ("<<<M528>>>" ++ check (runes_of_ascii "options  { charz
-    = char[ 0123456789
-] zchar= float32 ;} packet
-As
-    { x_y_z crc `{ , }` ,	} root
-    packet
-body { @lengthOf( Logon
-) Header repeatCount`it's`
-,	char[ /// triple
-255 ]
-u128@lengthOf( uint8x
-// " ++ [128512]%N ++ runes_of_ascii " emoji
-// a // b
-),
-    // a // b
-    repeat repeatCount`doc` //x
-,
-@lengthOf( packetx ) Z9_ x_y_z
-    // " ++ [27880; 37322]%N ++ runes_of_ascii "
-    `" ++ [28040; 24687; 31867; 22411]%N ++ runes_of_ascii "` ,}")).
-Eval vm_compute in ("<<<M3516>>>" ++ check (runes_of_ascii "options
-{
-
-    LittleEndian=
-    true;ArrayPrefixLenType
-=u64
-    ; 
-FixedStringPadFromLeft=
-
-    false 
-;}	packet
-	Quote{
-}
-    root  packet
-    Order
-{
-
-i64 Side2 , Quote
-, u32
-
-Px
-
-    ,
-	match
-Px
-as
-
-    Body
-    {
-    [  119 ,
-	147]
-    :
-Quote	,
-	}
-,
-u16
-    Flags	@calculatedFrom(
-
-    ""CRC32"" )
-    , 
-}
-
-")).
-Eval vm_compute in ("<<<M3725>>>" ++ check (runes_of_ascii "
-
-  root packet 
-Foo// " ++ [128512]%N ++ runes_of_ascii " emoji
-
-{ }options
-    {
-    // a // b
-		tag	// `tick` ""quote"" 'q'
-      =//	t
-"""";	u8x= 
-zchar[ 
-0]
-
-}  MetaData 
-int { zchar[
-    10
-	]lengthOf
-
-`` ,
-
-i64 u8x `// not a comment`	,
-
-pack
-    MetaDataX	// `tick` ""quote"" 'q'
-      `crlf
-line` , 
-Logon
-    charz `crlf
-line`,
-	// a // b
-	  }
-")).
-Eval vm_compute in ("<<<M378>>>" ++ check (runes_of_ascii "options
-{//
-matchKey//x
-=
-42	x
-    = '0';
-charz= true
-;  }MetaData	BodyLength
-{
-uint8 pack , zchar[ 1
-]float, float32 x_y_z `` ,	u32 _x	, i16 body, } // a // b
-MetaData asx { leftPad falsey ,
-char[] float	,
-char[] // `tick` ""quote"" 'q'
-u128
-    ,  char[]	float
-, u64 // " ++ [128512]%N ++ runes_of_ascii " emoji
-tag
-,
-    //	t
-    }
-")).
-Eval vm_compute in ("<<<M1445>>>" ++ check (runes_of_ascii "root packet Foo // " ++ [128512]%N ++ runes_of_ascii " emoji
-{ } options {
-    // a // b
-    tag tag // `tick` ""quote"" 'q'
-= //	t
-""""
-    ; u8x = zchar[0  ] }
-MetaData
-    int {zchar[ 10]
-lengthOf	`` , i64 u8x`// not a comment` ,MetaDataX pack// `tick` ""quote"" 'q'
-`crlf
-line`
-, Logon charz `crlf
-line`
-    ,
-    // a // b
-    }
-")).
-Eval vm_compute in ("<<<M1460>>>" ++ check (runes_of_ascii "root packet Foo // " ++ [128512]%N ++ runes_of_ascii " emoji
-{ } options {
-    // a // b
-    tag // `tick` ""quote"" 'q'
-= //	t
-""""
-    ; ; u8x = zchar[0  ] }
-MetaData
-    int {zchar[ 10]
-lengthOf	`` , i64 u8x`// not a comment` ,MetaDataX pack// `tick` ""quote"" 'q'
-`crlf
-line`
-, Logon charz `crlf
-line`
-    ,
-    // a // b
-    }
-")).
-Eval vm_compute in ("<<<M1620>>>" ++ check (runes_of_ascii "root packet Foo // " ++ [128512]%N ++ runes_of_ascii " emoji
-{ } options {
-    // a // b
-    tag // `tick` ""quote"" 'q'
-= //	t
-""""
-    ; u8x = zchar[0  ] }
-MetaData
-    int {zchar[ 10]
-lengthOf	`` , i64 u8x`// not a comment` ,MetaDataX pack// `tick` ""quote"" 'q'
-`crlf
-line`
-, Logon charz `crlf
-line`
-    ,
-    // a // b
-    ?}
-")).
-Eval vm_compute in ("<<<M1556>>>" ++ check (runes_of_ascii "root packet Foo // " ++ [128512]%N ++ runes_of_ascii " emoji
-{ } options {
-    // a // b
-    tag // `tick` ""quote"" 'q'
-= //	t
-""""
-    ; u8x = zchar[0  ] }
-MetaData
-    int {zchar[ 10]
-lengthOf	`` , i64 u8x`// not a comment` MetaDataX, pack// `tick` ""quote"" 'q'
-`crlf
-line`
-, Logon charz `crlf
-line`
-    ,
-    // a // b
-    }
-")).
-Eval vm_compute in ("<<<M1624>>>" ++ check (runes_of_ascii "root packet Foo // " ++ [128512]%N ++ runes_of_ascii " emoji
-{ } options {
-    // a // b
-    tag // `tick` ""quote"" 'q'
-= //	t
-""""
-    ; u8x = zchar[0  ] }
-MetaData
-    " ++ [21517; 23383]%N ++ runes_of_ascii " {zchar[ 10]
-lengthOf	`` , i64 u8x`// not a comment` ,MetaDataX pack// `tick` ""quote"" 'q'
-`crlf
-line`
-, Logon charz `crlf
-line`
-    ,
-    // a // b
-    }
-")).
-Eval vm_compute in ("<<<M1579>>>" ++ check (runes_of_ascii "root packet Foo // " ++ [128512]%N ++ runes_of_ascii " emoji
-{ } options {
-    // a // b
-    tag // `tick` ""quote"" 'q'
-= //	t
-""""
-    ; u8x = zchar[0  ] }
-MetaData
-    int {zchar[ 10]
-lengthOf	`` , i64 u8x`// not a comment` ,MetaDataX pack// `tick` ""quote"" 'q'
-`crlf
-line`
-,  charz `crlf
-line`
-    ,
-    // a // b
-    }
-")).
-Eval vm_compute in ("<<<M3857>>>" ++ check (runes_of_ascii "
-
-  // top
-
-options 
-// c0
-    	{ 
-
-// c1
-	FixedStringPadFromLeft
-    =
-
-// c3
-
-  true // c4
-      ;
-
-// c5
-
-	}
-// c6
-	root 
-  // c7
-  packet 
-P// c9a
-
-	// c9b
-	{
-    // c10
-  char[
-    // c11
-	4	// c12a
-	  // c12b
-	]
-
-    z
-
-    // c14
-    , 	 // c15a
-	  // c15b
-      } ")).
-Eval vm_compute in ("<<<M797>>>" ++ check (runes_of_ascii "
-root packet Pad { @rightPad (
-'\x00') trueish
-`it's`
-, } MetaData metadata
-{ char[] falsey`
-` ,} root
-packet
-    calculatedFrom { @lengthOf( packetx )@lengthOf( float)/// triple
-@tag(
-    00//
-)int `doc`, @calculatedFrom( ""\" ++ [233]%N ++ runes_of_ascii """
-) @tag( 4294967296	) char[]_x `doc`, }")).
-Eval vm_compute in ("<<<M4288>>>" ++ check (runes_of_ascii "packet metadata { 
-@rightPad
-	//x
-  	(
-
-'\x00'
-        // c
-    ) @rightPad
-( '\x00'
-)char[]
-_x @calculatedFrom(  ""a\\"" ) ,repeat int64
-	roots ,
-repeat// trailing space 
-      zchar[  007 // c
-	]i64_,
-    match
-A
-as
-	o
-	{
-	""1""
-:Foo	, }	,  //x
-    	}")).
-Eval vm_compute in ("<<<M4115>>>" ++ check (runes_of_ascii "packet tag {
-    u32 crc @lengthOf(a1),
-    string falsey `say ""hi""`,
-    @tag(1)
-    asx,
-}
-
-options {
-    f32a = true;
-    zchar = '\x00';
+    f64 float@lengthOf(
+    Packet // " ++ [27880; 37322]%N ++ runes_of_ascii "
+), @tag(  4294967296 ) u32
+lengthOf@calculatedFrom(""\" ++ [233]%N ++ runes_of_ascii """)// c
+, @tag(	10 ) Foo ,
+}	packet leftPad { } options {i8i8 =zchar[ 7 ]}")).
+Eval vm_compute in ("<<<M1531>>>" ++ check (runes_of_ascii "options {
+    MetaDataX = ' ';
+    trueish = """ ++ [233]%N ++ runes_of_ascii "t" ++ [233]%N ++ runes_of_ascii """;
+    /// triple
 }
 
 packet BodyLength {
-    @tag(007)
-    @calculatedFrom(""" ++ [128512]%N ++ runes_of_ascii """)
-    repeat zchar[007] packetx,
+    @lengthOf(repeatCount)
+    char[65535] crc @calculatedFrom(""""),
+    zchar[0] x_y_z @calculatedFrom(""packet"") `a\`,
 }
-/// triple")).
-Eval vm_compute in ("<<<M1267>>>" ++ check (runes_of_ascii "
-MetaData
-    // a // b
-    uint8x /// triple
-{ }packet matchKey	{ @rightPad (	)
-    a1
-{
-zchar[
-    1 ] u128 @calculatedFrom(  ""a\""b"" ),	i64_ i8i8 ,
-    // c
-    repeat int roots , i8 charz
-//
-// packet A { u8 x, }
-,  }	,
-} options { }")).
-Eval vm_compute in ("<<<M3797>>>" ++ check (runes_of_ascii "packet	Logon{
-    string 
-user,
-} root 
-packet
-    Frame 
-{
 
-    u8
-	K
-	,  match
-K
-as
-
-    Body { 1:
-
-Logon
-
-,
-	2 
-:  Logout
-	,
-	}
-    ,
-Tail ,} packet
-    Logout {
-
-u16  reason, } 
-packet
-Tail
-
-    {u32  crc
-	,
-	}
-
-")).
-Eval vm_compute in ("<<<M3871>>>" ++ check (runes_of_ascii "packet T {
-    match Packet as Header {
-        42 : BodyLength,
-        ""// no comment"" : matchKey,
-        ""`tick`"" : crc,
-        [1] : o,
+packet Header {
+    repeat T {
+        //x
+        //x
+        u128 chars,
     },
-}// " ++ [128512]%N ++ runes_of_ascii " emoji
+    match Pad as crc {
+        ""a\""b"" : x,
+    },
+    @lengthOf(rootA)
+    @lengthOf(stringy)
+    i32 x,
+    @calculatedFrom(""" ++ [128512]%N ++ runes_of_ascii """)
+    int8 u @lengthOf(Pad) `doc`,
+    @tag(65535)
+    charz {
+        a1 _x,
+        repeat float32 Header `say ""hi""`,
+        char u,
+    },
+    //x
+    @leftPad()
+    @leftPad('0')
+    @rightPad('\x00')
+    match falsey as As {
+        // " ++ [128512]%N ++ runes_of_ascii " emoji
+        ""a\\"" : pack,
+    },
+    repeat metadata,
+    match i8i8 as u {
+        [4294967296, 42] : uint8x,
+    },
+    repeat uint16 chars `u8 x,`,
+    u16 repeatCount `crlf
+        line`,
+}
 
-packet As {
+packet tag {
+    char[7] trueish,
+    int8 string_ ``,
+}")).
+Eval vm_compute in ("<<<M1774>>>" ++ check (runes_of_ascii "root packet options1 {
+    @lengthOf(Packet)
+    //x
+    //	t
+    repeat chars {
+        repeatCount u128,
+        match u as BodyLength {
+            [65535] : packetx,
+            3 : zchar,
+            255 : roots,
+            """ ++ [233]%N ++ runes_of_ascii "t" ++ [233]%N ++ runes_of_ascii """ : Header,
+        },
+        i64 Packet,
+        char[] uint8x @calculatedFrom(""// no comment"") `crlf
+                line`,
+    },
+    string trueish,
+    @leftPad(' ')
+    i8i8 {
+        /// triple
+        float64 T @lengthOf(leftPad),// @lengthOf(
+        u128 `" ++ [233]%N ++ runes_of_ascii "`,
+        lengthOf,// a // b
+        matchKey,
+    },
+    repeat char[1] MetaDataX `a\`,
+    // c
+    // " ++ [128512]%N ++ runes_of_ascii " emoji
+    @calculatedFrom(""1"")
+    string chars `it's`,
+    char[] calculatedFrom @lengthOf(calculatedFrom) `doc`,
+    rootA _x `" ++ [28040; 24687; 31867; 22411]%N ++ runes_of_ascii "`,
+}
+
+MetaData calculatedFrom {
+    u tag `
+        `,
+}")).
+Eval vm_compute in ("<<<M1960>>>" ++ check (runes_of_ascii "packet int {
+    len T,
+}
+
+MetaData trueish {
+    // packet A { u8 x, }
+}
+
+packet BodyLength {
+    @calculatedFrom(""packet"")
+    @calculatedFrom(""CRC32"")
+    // c
+    @tag(00)
+    char[4294967296] stringy,
+    @lengthOf(leftPad)
+    // c
+    char zchar,
+    @lengthOf(MetaDataX)
+    @tag(10)
+    // " ++ [128512]%N ++ runes_of_ascii " emoji
+    @rightPad('0')
+    options1 matchKey `{ , }`,
+    @tag(42)
+    @tag(1)
+    @tag(10)
+    char[] stringy `doc`,
+    msg_type `" ++ [233]%N ++ runes_of_ascii "`,
+    @lengthOf(trueish)
+    body {
+        repeat o stringy `crlf
+                line`,
+        repeat u32 i8i8,
+        char[65535] stringy `a\`,
+        //x
+    },
+    @calculatedFrom(""packet"")
+    matchKey,
+    @tag(4294967296)
+    uint32 rootA @lengthOf(trueish),
+    string body `u8 x,`,
+}")).
+Eval vm_compute in ("<<<M1177>>>" ++ check (runes_of_ascii "// top
+options // c0
+{ // c1
+chars // c2
+= // c3
+""a\\"" // c4
+} // c5
+packet // c6
+Z9_ // c7
+{ // c8
+match // c9
+BodyLength // c10
+as // c11
+roots // c12
+{ // c13
+""" ++ [28040; 24687]%N ++ runes_of_ascii """ // c14
+: // c15
+falsey // c16
+, // c17
+00 // c18
+: // c19
+u128 // c20
+0 // c21
+: // c22
+len // c23
+, // c24
+007 // c25
+: // c26
+f32a // c27
+} // c28
+, // c29
+@tag( // c30
+3 // c31
+) // c32
+@calculatedFrom( // c33
+""`tick`"" // c34
+) // c35
+@leftPad // c36
+( // c37
+' ' // c38
+) // c39
+string // c40
+asx // c41
+, // c42
+string // c43
+u // c44
+@lengthOf( // c45
+options1 // c46
+) // c47
+, // c48
+float32 // c49
+i64_ // c50
+@calculatedFrom( // c51
+""a\""b"" // c52
+) // c53
+, // c54
+} // c55
+")).
+Eval vm_compute in ("<<<M2037>>>" ++ check (runes_of_ascii "
+// c
+  options {
+
+    i8i8= 
+""" ++ [28040; 24687]%N ++ runes_of_ascii """ 
+
+// trailing space 
+; Pad
+
+    =
+
+' '
+}
+
+    root  packet	i8i8
+{
+i64
+
+matchKey
+
+    `" ++ [233]%N ++ runes_of_ascii "` , match
+repeatCount	as
+    x 	 // @lengthOf(
+	{ 
+    //	t
+	  // a // b
+
+	42 :	float
+,  007 
+: u 
+,
+} 
+// trailing space 
+    	//x
+
+  , @calculatedFrom(
+""a	b""	)	string_ 
+      // @lengthOf(
+/// triple
+
+	{
+
+matchKey
+string_
+
+    , 	 // trailing space 
+},
+    repeat
+	char[]
+    repeatCount,
+
+    }
+    options // a // b
+  {msg_type
+
+    =
+
+true	; int
+    // " ++ [128512]%N ++ runes_of_ascii " emoji
+
+	// " ++ [27880; 37322]%N ++ runes_of_ascii "
+	=
+	u16 string_
+
+= false;} ")).
+Eval vm_compute in ("<<<M1757>>>" ++ check (runes_of_ascii "packet i64_ {
+}
+
+packet crc {
 }
 
 options {
-    u128 = ' '
-    body = char[]
+}
+
+root packet charz {
+}
+
+packet trueish {
+    repeat char[255] lengthOf `" ++ [28040; 24687; 31867; 22411]%N ++ runes_of_ascii "`,
+    zchar[00] x `it's`,/// triple
+    repeat char[] Packet `say ""hi""`,
+    @calculatedFrom(""x y"")
+    char[1] lengthOf,
+    lengthOf `crlf
+    line`,
+    match charz as MetaDataX {
+        ""a	b"" : uint8x,
+        ""\n"" : calculatedFrom,
+    },
+    @tag(10)
+    float64 i8i8 @calculatedFrom(""" ++ [128512]%N ++ runes_of_ascii """) `say ""hi""`,
+    @rightPad('\x00')
+    i32 Foo `it's`,
 }")).
-Eval vm_compute in ("<<<M2256>>>" ++ check (runes_of_ascii "MetaData Packet { }packet	asx  { @lengthOf( asx) ) falsey`crlf
-line`
-,
-    }
-    packet x	{uint32// @lengthOf(
-rootA	,u32 options1 `say ""hi""` , @tag( 7
-    )// packet A { u8 x, }
-msg_type @lengthOf(
-stringy	)	, }
+Eval vm_compute in ("<<<M1575>>>" ++ check (runes_of_ascii "options {
+    LittleEndian = false;
+    StringPrefixLenType = u8;
+    ArrayPrefixLenType = u16;
+    FixedStringPadFromLeft = false;
+}
 
-")).
-Eval vm_compute in ("<<<M2391>>>" ++ check (runes_of_ascii "MetaData Packet { }packet	asx  { @lengthOf( asx) falsey`crlf
-line`
-,
-    }
-    packet x	{|uint32// @lengthOf(
-rootA	,u32 options1 `say ""hi""` , @tag( 7
-    )// packet A { u8 x, }
-msg_type @lengthOf(
-stringy	)	, }
+packet Heartbeat {
+    u8 seqNo,
+    @rightPad('\x00')
+    char[8] x,
+}
 
-")).
-Eval vm_compute in ("<<<M2357>>>" ++ check (runes_of_ascii "MetaData Packet { }packet	asx  { @lengthOf( asx) falsey`crlf
-line`
+root packet Trade {
+    repeat Heartbeat,
+    float32 OrderId,
+    i64 Acct,
+    u16 Qty,
+    u16 clOrdID,
+    match clOrdID as Body {
+        131 : Heartbeat,
+    },
+    u16 sym @calculatedFrom(""CRC32""),
+}")).
+Eval vm_compute in ("<<<M190>>>" ++ check (runes_of_ascii "packet x_y_z
+    {@calculatedFrom( """"
+) repeat
+// `tick` ""quote"" 'q'
+// `tick` ""quote"" 'q'
+_x f32a , @calculatedFrom(
+    ""it's"")chars
+// c
+// `tick` ""quote"" 'q'
 ,
-    }
-    packet x	{uint32// @lengthOf(
-rootA	,u32 options1 `say ""hi""` , @tag( 7
-    )// packet A { u8 x, }
-msg_type @lengthOf(
-)	stringy	, }
-
+    int32 u8x// `tick` ""quote"" 'q'
+, // c
+}options
+    // " ++ [128512]%N ++ runes_of_ascii " emoji
+    {crc	= """ ++ [233]%N ++ runes_of_ascii "t" ++ [233]%N ++ runes_of_ascii """ }root packet  string_{ } packet x  { u8x
+    Packet
+    ,
+i32 float, } options
+    {Pad =  4294967296 ; leftPad
+= """ ++ [233]%N ++ runes_of_ascii "t" ++ [233]%N ++ runes_of_ascii """}
 ")).
-Eval vm_compute in ("<<<M1117>>>" ++ check (runes_of_ascii "MetaData string_
-{ // c
-len
-MetaDataX`
-` , char[] options1
-// " ++ [27880; 37322]%N ++ runes_of_ascii "
+Eval vm_compute in ("<<<M142>>>" ++ check (runes_of_ascii "options { i8i8  =
+    int64 ; charz = ""// no comment""; repeatCount ="""" ; f32a = 0 stringy ='\x00' }
+    // packet A { u8 x, }
+    options
+    {
+Logon = 255
+}
+    packet Header // c
+{} MetaData
+lengthOf{
+    // `tick` ""quote"" 'q'
+    }
+options {stringy  =false ; options1
+= true ; asx=3
 /// triple
-,u tag
-, options1 Z9_ ,
-x // c
-f32a //x
-`line1
-line2`,zchar[ 0123456789 ] pack
-,
-}packet _x {  @leftPad ( ) char[	10
-] roots , }
+/// triple
+roots =
+'\x00' }
 ")).
-Eval vm_compute in ("<<<M1123>>>" ++ check (runes_of_ascii "packet body { @rightPad /// triple
-( // " ++ [27880; 37322]%N ++ runes_of_ascii "
-'0') uint64 repeatCount , @lengthOf(o)@lengthOf(
-asx
-    // c
-    ) @lengthOf( MetaDataX ) match falsey // packet A { u8 x, }
-as
-x { ""a\\"":float
-    , } ,
-} // " ++ [27880; 37322]%N)).
-Eval vm_compute in ("<<<M2265>>>" ++ check (runes_of_ascii "MetaData Packet { }packet	asx  { @lengthOf( asx) falsey
-,
-    }
-    packet x	{uint32// @lengthOf(
-rootA	,u32 options1 `say ""hi""` , @tag( 7
-    )// packet A { u8 x, }
-msg_type @lengthOf(
-stringy	)	, }
-
-")).
-Eval vm_compute in ("<<<M827>>>" ++ check (runes_of_ascii "packet _x{Pad``, f32 roots , i8 // " ++ [27880; 37322]%N ++ runes_of_ascii "
-pack, @lengthOf(
-    roots	)repeat
-zchar[	65535 ] int,
-@lengthOf( u8x )
-repeat int16
-msg_type , } // @lengthOf(
-MetaData
-BodyLength {char[] _x `doc`
-, }
-")).
-Eval vm_compute in ("<<<M86>>>" ++ check (runes_of_ascii "
-packet calculatedFrom { } MetaData charz
+Eval vm_compute in ("<<<M1204>>>" ++ check (runes_of_ascii "// top
+packet
+    // c0
+o
+    // c1
 {
-Z9_
-    // @lengthOf(
-    Pad // a // b
-, uint64
+    // c2
+@tag(
+    // c3
+42
+    // c4
+)
+    // c5
+repeat
+    // c6
+x
+    // c7
+{
+    // c8
+char[
+    // c9
+0123456789
+    // c10
+]
+    // c11
+i64_
+    // c12
+,
+    // c13
+}
+    // c14
+,
+    // c15
+}
+    // c16
+options
+    // c17
+{
+    // c18
+}
+    // c19
+")).
+Eval vm_compute in ("<<<M65>>>" ++ check (runes_of_ascii "packet
+    BodyLength { repeat char[
+    1 ]
+options1
+`it's`
+// c
+// " ++ [128512]%N ++ runes_of_ascii " emoji
+, x_y_z{
+    packetx @lengthOf(zchar ) `tab	here` , repeat _x a1 ,
+} , } packet roots{ // `tick` ""quote"" 'q'
+}	options  { Foo	=char[ 1] // " ++ [27880; 37322]%N ++ runes_of_ascii "
+;charz
+=
+1
+; Packet = ""`tick`"" }
+//x
+")).
+Eval vm_compute in ("<<<M1357>>>" ++ check (runes_of_ascii "// top
+packet // c0a
+  // c0b
+B // c1a
+  // c1b
+{ u8 // c3a
+  // c3b
+a // c4
+, string
+    // c6
+s , // c8
+} // c9
+root
+    // c10
+packet // c11
+P // c12
+{ u16 L @lengthOf( B ) , // c19
+B // c20a
+  // c20b
+, u8
+    // c22
+t , } // c25
+")).
+Eval vm_compute in ("<<<M1753>>>" ++ check (runes_of_ascii "packet calculatedFrom {
+    @lengthOf(zchar)
+    char[] chars `line1
+        line2`,
+    string Logon @calculatedFrom(""it's""),
+    matchKey `say ""hi""`,
+    @lengthOf(T)
+    x_y_z @calculatedFrom(""it's"") `// not a comment`,
+}")).
+Eval vm_compute in ("<<<M429>>>" ++ check (runes_of_ascii "options
+{
+matchKey = 42/// triple
+x='0' '0'
 // packet A { u8 x, }
-// a // b
-u `" ++ [233]%N ++ runes_of_ascii "` , char[
-00]
-Z9_,	}// `tick` ""quote"" 'q'
-options {} 	 ")).
-Eval vm_compute in ("<<<M3712>>>" ++ check (runes_of_ascii "packet  crc{} MetaData/// triple
-
-  Packet{
-
-    Logon
-
-Pad
-    `line1
-line2` ,  u8
-pack
-	, // a // b
-
-	}
-
-    options 
-    // c
-	{
-falsey
-
-    =
-""it's""	len
-= """ ++ [28040; 24687]%N ++ runes_of_ascii """ ;
+//
+charz
+=
+// packet A { u8 x, }
+// trailing space 
+true  ; } MetaData BodyLength
+{
+uint8
+pack,zchar[ 1]float ,  float32 x_y_z `` ,u32
+_x,i16 body  , }
+")).
+Eval vm_compute in ("<<<M573>>>" ++ check (runes_of_ascii "options
+{
+matchKe/y = 42/// triple
+x='0' ;
+// packet A { u8 x, }
+//
+charz
+=
+// packet A { u8 x, }
+// trailing space 
+true  ; } MetaData BodyLength
+{
+uint8
+pack,zchar[ 1]float ,  float32 x_y_z `` ,u32
+_x,i16 body  , }
+")).
+Eval vm_compute in ("<<<M513>>>" ++ check (runes_of_ascii "options
+{
+matchKey = 42/// triple
+x='0' ;
+// packet A { u8 x, }
+//
+charz
+=
+// packet A { u8 x, }
+// trailing space 
+true  ; } MetaData BodyLength
+{
+uint8
+pack,zchar[ 1]float ,  x_y_z float32 `` ,u32
+_x,i16 body  , }
+")).
+Eval vm_compute in ("<<<M313>>>" ++ check (runes_of_ascii "
+packet	stringy
+//	t
+// " ++ [128512]%N ++ runes_of_ascii " emoji
+{ match calculatedFrom // a // b
+as MetaDataX { [ ""a\\"", """ ++ [28040; 24687]%N ++ runes_of_ascii """,// `tick` ""quote"" 'q'
+""CRC32"" ,
+10 ]:x,
+    /// triple
+    0
+:  falsey
+, 1 :u8x ,
+//x
+// c
+65535
+    :	Foo , }
+,
+    }")).
+Eval vm_compute in ("<<<M456>>>" ++ check (runes_of_ascii "options
+{
+matchKey = 42/// triple
+x='0' ;
+// packet A { u8 x, }
+//
+charz
+=
+// packet A { u8 x, }
+// trailing space 
+true  ; }  BodyLength
+{
+uint8
+pack,zchar[ 1]float ,  float32 x_y_z `` ,u32
+_x,i16 body  , }
+")).
+Eval vm_compute in ("<<<M315>>>" ++ check (runes_of_ascii "packet// " ++ [27880; 37322]%N ++ runes_of_ascii "
+trueish { match f32a
+as stringy	{ """ ++ [28040; 24687]%N ++ runes_of_ascii """ : _x ,
+1 : //x
+stringy
+    ,
+    65535 :u8x 65535: // trailing space 
+asx
+// packet A { u8 x, }
+// c
+,  }
+    // packet A { u8 x, }
+    , }")).
+Eval vm_compute in ("<<<M677>>>" ++ check (runes_of_ascii "// c
+packet i64_ {	char[] calculatedFrom , } packet
+trueish  {@calculatedFrom(
+""a\\"" ) o { i32 falsey@lengthOf( uint8x ),
+} , } // `tick` ""quote"" 'q'
+options true// c
+Z9_ = ' '//
+}
+")).
+Eval vm_compute in ("<<<M695>>>" ++ check (runes_of_ascii "// c
+packet i64_ {	char[] calculatedFrom , } packet
+trueish  {@calculatedFrom(
+""a\\"" )  { i32 falsey@lengthOf( uint8x ),
+} , } // `tick` ""quote"" 'q'
+options {// c
+Z9_ = ' '//
 }
 ")).
 Eval vm_compute in ("<<<M183>>>" ++ check (runes_of_ascii "packet x_y_z{  } packet  Logon { repeat i8 int
@@ -2104,432 +780,281 @@ Eval vm_compute in ("<<<M183>>>" ++ check (runes_of_ascii "packet x_y_z{  } pack
 char[] a1@calculatedFrom( ""// no comment"" )`// not a comment`, string
     Logon , }
 ")).
-Eval vm_compute in ("<<<M4375>>>" ++ check (runes_of_ascii "  // `tick` ""quote"" 'q'
-	  options
-
-{ calculatedFrom	// " ++ [27880; 37322]%N ++ runes_of_ascii "
-= ""{,}""
-
-Pad= int32; 
-uint8x /// triple
-      =
-    ""`tick`""  
-  // @lengthOf(
-  	// @lengthOf(
-    }
-")).
-Eval vm_compute in ("<<<M1088>>>" ++ check (runes_of_ascii "packet u // c
-{
-    //x
-    char[42 ]
-roots
-// " ++ [27880; 37322]%N ++ runes_of_ascii "
-// `tick` ""quote"" 'q'
-, @lengthOf( u128)
-uint8 tag,repeat uint16
-int `{ , }`
-,
-    }
-// trailing space 
-")).
-Eval vm_compute in ("<<<M3466>>>" ++ check (runes_of_ascii "root packet
-    // c1
-P // c2
-{ u8 // c4
-s_u8 // c5
-, // c6
-repeat // c7
-u8 // c8
-r_u8 , u16 // c11
-b_len
-    // c12
-, // c13a
-  // c13b
-}
-    // c14
-")).
-Eval vm_compute in ("<<<M3733>>>" ++ check (runes_of_ascii "options {
-    a1 = char[1];
-    x = f64;
-    Z9_ = char[3];
-    Z9_ = '\x00'
-    x_y_z = zchar[10];
-}
-
-packet x_y_z {
-    chars trueish `it's`,
-}")).
-Eval vm_compute in ("<<<M4422>>>" ++ check (runes_of_ascii "packet A {
-    match k as n {
-        [
-            ""a"", ""bb"", ""c c"", ""d"", ""e"",
-            ""f"", ""g""
-        ] : B,
-        2 : C,
+Eval vm_compute in ("<<<M1565>>>" ++ check (runes_of_ascii "packet A {
+    Inner {
+        match k as n {
+            [
+                1, 22, 007, 4, 5,
+                66, 7, 8
+            ] : B,
+        },
     },
 }")).
-Eval vm_compute in ("<<<M1630>>>" ++ check (runes_of_ascii "root packet packet /// triple
-rootA {	i32
-MetaDataX@calculatedFrom( ""CRC32"" ) `line1
-line2` , } MetaData BodyLength {
-u8
-rootA, } // c")).
-Eval vm_compute in ("<<<M398>>>" ++ check (runes_of_ascii "// `tick` ""quote"" 'q'
-options { calculatedFrom // " ++ [27880; 37322]%N ++ runes_of_ascii "
-=""{,}"" Pad
-= int32 ;uint8x/// triple
-= ""`tick`""
-// @lengthOf(
-// @lengthOf(
+Eval vm_compute in ("<<<M1626>>>" ++ check (runes_of_ascii "root packet stringy {
+    @tag(7)
+    @tag(1)
+    @rightPad('\x00')
+    Foo x `crlf
+        line`,
+    @calculatedFrom(""a	b"")
+    roots `it's`,
 }")).
-Eval vm_compute in ("<<<M198>>>" ++ check (runes_of_ascii "// c
-options{
-    //
-    repeatCount = '0';leftPad =
-' ';
-// c
-/// triple
-msg_type
-    = char[ 10
-]
-;}
-packet
-    Packet {//x
-}
-")).
-Eval vm_compute in ("<<<M894>>>" ++ check (runes_of_ascii "options
-{ As= string u =
-    """ ++ [233]%N ++ runes_of_ascii "t" ++ [233]%N ++ runes_of_ascii """
-} packet string_	{ @tag( 3) int32 As ,
-} root packet stringy { //x
-string int,}
-options{  }")).
-Eval vm_compute in ("<<<M1716>>>" ++ check (runes_of_ascii "root packet /// triple
-rootA {	i32
-MetaDataX@calculatedFrom( ""CRC32"" ) `line1
-line2` , } MetaData BodyLength {
-u8
-rootA, } /")).
-Eval vm_compute in ("<<<M1841>>>" ++ check (runes_of_ascii "packet
-    Pad // a // b
-{ i8i8 @calculatedFrom( ""a	b"") `u8 x,` ,
-} options{ float float// " ++ [128512]%N ++ runes_of_ascii " emoji
-= f64 i64_
-=//	t
-00 }
-")).
-Eval vm_compute in ("<<<M3641>>>" ++ check (runes_of_ascii "packet B {
-    u8 a,
-}
-
-root packet P {
-    u8 K,
-    u8 L @lengthOf(Body),
-    match K as Body {
-        1 : B,
-    },
-}")).
-Eval vm_compute in ("<<<M1871>>>" ++ check (runes_of_ascii "packet
-    Pad // a // b
-{ i8i8 @calculatedFrom( ""a	b"") `u8 x,` ,
-} options{ float// " ++ [128512]%N ++ runes_of_ascii " emoji
-= f64 i64_
-=//	t
-00 } }
-")).
-Eval vm_compute in ("<<<M4320>>>" ++ check (runes_of_ascii "
-packet
+Eval vm_compute in ("<<<M309>>>" ++ check (runes_of_ascii "options {
+Pad = // " ++ [27880; 37322]%N ++ runes_of_ascii "
+3 ; float =
+false
+    // packet A { u8 x, }
+    ;
+Z9_ =""packet""	chars=
+""a\""b"" float=
+""a\\""} MetaData zchar { } 	 ")).
+Eval vm_compute in ("<<<M1770>>>" ++ check (runes_of_ascii "
+packet 
 A
-	{
+    {	match k
+as
 
-    match
-k  as n	{
-    [
-""a""
+n  { [
+1
 
-    ,
-""bb""
-
-    ,
-007
 ,
-	""d""]	:B
+    22
+	,	007 ,4
 
-    2
+    ,	5	,
+	66
+, 7,8 ,
+9
 
-    : C  } ,
-    }
-")).
-Eval vm_compute in ("<<<M1655>>>" ++ check (runes_of_ascii "root packet /// triple
-rootA {	i32
-MetaDataX tag ""CRC32"" ) `line1
-line2` , } MetaData BodyLength {
-u8
-rootA, } // c")).
-Eval vm_compute in ("<<<M111>>>" ++ check (runes_of_ascii "root packet Pad {@tag(  3
-)
-    @calculatedFrom(
-""a\""b""
-    )repeat zchar[
-    // " ++ [128512]%N ++ runes_of_ascii " emoji
-    00 ] repeatCount , }")).
-Eval vm_compute in ("<<<M334>>>" ++ check (runes_of_ascii "// @lengthOf(
-options{ } packet pack  {//
-} options
-    {
-    }MetaData msg_type
-{} root packet repeatCount  {}")).
-Eval vm_compute in ("<<<M2374>>>" ++ check (runes_of_ascii "MetaData Packet { }packet	asx  { @lengthOf( asx) falsey`crlf
-line`
 ,
-    }
-    packet x	{uint32// @lengthOf")).
-Eval vm_compute in ("<<<M3454>>>" ++ check (runes_of_ascii "options {
-    LittleEndian = true;
-}
-root packet P {
-    u16 a,
-    u32 Sum @calculatedFrom(""CR\
-C32""),
-}
+10,  11 ]
+:
+
+    B
+2  :
+
+C	} 
+,	}
 ")).
-Eval vm_compute in ("<<<M2997>>>" ++ check (runes_of_ascii "packet A {
-  match k as n {
-    [1, 22, ""c c"", 4, 5, ""f"", 7, 8, ""i"", 10, 11, ""l""] : B,
-    2 : C
-  },
-}")).
-Eval vm_compute in ("<<<M3367>>>" ++ check (runes_of_ascii "packet calculatedFrom { @tag( 4294967296 ) u msg_type , char[ 3 ] crc @lengthOf( len // c
-) `u8 x,` , }")).
-Eval vm_compute in ("<<<M1468>>>" ++ check (runes_of_ascii "root packet Foo // " ++ [128512]%N ++ runes_of_ascii " emoji
-{ } options {
-    // a // b
-    tag // `tick` ""quote"" 'q'
-= //	t
-""""
-    ;")).
-Eval vm_compute in ("<<<M2304>>>" ++ check (runes_of_ascii "MetaData Packet { }packet	asx  { @lengthOf( asx) falsey`crlf
-line`
-,
-    }
-    packet x	{uint32")).
-Eval vm_compute in ("<<<M971>>>" ++ check (runes_of_ascii "options {}	packet
-    u128 {repeat uint8x x `say ""hi""` , // trailing space 
-}MetaData crc { }
-")).
-Eval vm_compute in ("<<<M3243>>>" ++ check (runes_of_ascii "packet Logon { @tag( 42 ) @rightPad ( ' ' ) @leftPad ( ) repeat
-// c
-trueish { string T , } , }")).
-Eval vm_compute in ("<<<M2040>>>" ++ check (runes_of_ascii "@leftpadroot
-packet crc
-    { f32a @calculatedFrom( """ ++ [233]%N ++ runes_of_ascii "t" ++ [233]%N ++ runes_of_ascii """ )
-    `say ""hi""`, lengthOf `` ,  }")).
-Eval vm_compute in ("<<<M4185>>>" ++ check (runes_of_ascii "root packet
-
-repeatCount{
-@lengthOf(
-
-Foo )@tag(4294967296
-    ) repeat
-f32  u8x,} 
-
-// c
-")).
-Eval vm_compute in ("<<<M4400>>>" ++ check (runes_of_ascii "root packet crc {
-    f32a @calculatedFrom(""" ++ [233]%N ++ runes_of_ascii "t" ++ [233]%N ++ runes_of_ascii """) `say ""hi""`,
-    lengthOf lengthOf ``,
-}")).
-Eval vm_compute in ("<<<M3816>>>" ++ check (runes_of_ascii "packet
-
-    _x 
-{ repeat	crc
-
-    {
-
-    char[
-7 
-]
-    float
-
-    ,	}
-    ,}
-")).
-Eval vm_compute in ("<<<M1968>>>" ++ check (runes_of_ascii "root
-packet {
-    crc f32a @calculatedFrom( """ ++ [233]%N ++ runes_of_ascii "t" ++ [233]%N ++ runes_of_ascii """ )
-    `say ""hi""`, lengthOf `` ,  }")).
-Eval vm_compute in ("<<<M2928>>>" ++ check (runes_of_ascii "packet A {
-  match k as n {
-    [1, ""bb"", 007, ""d"", 5, ""f"", 7] : B,
-    2 : C
-  },
-}")).
-Eval vm_compute in ("<<<M3293>>>" ++ check (runes_of_ascii "
-// c
-packet o { @tag( 42 ) repeat x { char[ 0123456789 ] i64_ , } , } options { }")).
-Eval vm_compute in ("<<<M3310>>>" ++ check (runes_of_ascii "packet o { @tag( 42 ) repeat x { // c
-char[ 0123456789 ] i64_ , } , } options { }")).
-Eval vm_compute in ("<<<M1986>>>" ++ check (runes_of_ascii "root
-packet crc
-    { f32a @calculatedFrom(  )
-    `say ""hi""`, lengthOf `` ,  }")).
-Eval vm_compute in ("<<<M823>>>" ++ check (runes_of_ascii "options{Header = true ; pack
-= ""{,}"" ; }
-//
-/// triple
-options{
-i8i8= false
-}")).
-Eval vm_compute in ("<<<M2734>>>" ++ check (runes_of_ascii "@lengthOf( float64 @calculatedFrom( f64 uint16 int8 char i16 packet = repeat")).
-Eval vm_compute in ("<<<M3818>>>" ++ check (runes_of_ascii "packet
-
-A  {	match	k 
-as 
-n
-
-    { 
-[
-
-1 
-,
-""bb"" , 007 
-]:
-B 2 :C	},	}
-")).
-Eval vm_compute in ("<<<M1671>>>" ++ check (runes_of_ascii "root packet /// triple
-rootA {	i32
-MetaDataX@calculatedFrom( ""CRC32"" )")).
-Eval vm_compute in ("<<<M3402>>>" ++ check (runes_of_ascii "MetaData _x { zchar[
-// c
-4294967296 ] lengthOf `// not a comment` , }")).
-Eval vm_compute in ("<<<M294>>>" ++ check (runes_of_ascii "
+Eval vm_compute in ("<<<M1669>>>" ++ check (runes_of_ascii "
 packet
-    //x
-    MetaDataX { repeat rootA `two words` //x
-,//
-}")).
-Eval vm_compute in ("<<<M2202>>>" ++ check (runes_of_ascii "root
-    // `tick` ""quote"" 'q'
-    packet As\ { trueish Packet , }
-")).
-Eval vm_compute in ("<<<M3699>>>" ++ check (runes_of_ascii "options 
+
+    o{
+    @tag(  42
+) repeat x
+    {
+    char[ 
+0123456789 
+]
+
+    i64_
+	, }	,
+// c
+      } options
 {
-    matchKey // `tick` ""quote"" 'q'
-	  = '0' // " ++ [27880; 37322]%N ++ runes_of_ascii "
-;
-	}")).
-Eval vm_compute in ("<<<M362>>>" ++ check (runes_of_ascii "//x
-MetaData msg_type
-    {// a // b
-uint32 pack
-`tab	here`, }
-")).
-Eval vm_compute in ("<<<M2174>>>" ++ check (runes_of_ascii "root
-    // `tick` ""quote"" 'q'
-    packet As { as Packet , }
-")).
-Eval vm_compute in ("<<<M2860>>>" ++ check (runes_of_ascii "packet A {
-  match k as n {
-    [""a""] : B,
-    2 : C
-  },
-}")).
-Eval vm_compute in ("<<<M1941>>>" ++ check (runes_of_ascii "
-? packet	As { @calculatedFrom(//x
-""{,}""	)lengthOf , } 	 ")).
-Eval vm_compute in ("<<<M4046>>>" ++ check (runes_of_ascii "options	{ 
-	// " ++ [27880; 37322]%N ++ runes_of_ascii "
+}
 
-  //
-    	calculatedFrom =false
-	}
 ")).
-Eval vm_compute in ("<<<M1753>>>" ++ check (runes_of_ascii "options { }options options {  } // `tick` ""quote"" 'q'")).
-Eval vm_compute in ("<<<M1225>>>" ++ check (runes_of_ascii "  packet  u { repeat x pack `// not a comment`, }
+Eval vm_compute in ("<<<M1722>>>" ++ check (runes_of_ascii "
+packet
+A 
+{ u16
+    len@lengthOf(	body
+)  `tab
+	x` , u32	crc @calculatedFrom(  ""CRC32"") `tab
+	x` ,
+
+string  body
+, }")).
+Eval vm_compute in ("<<<M633>>>" ++ check (runes_of_ascii "MetaData
+    // trailing space 
+    matchKey
+{ u64 chars // a // b
+,char[] lengthOf `// not a comment`
+    } //	t
+,")).
+Eval vm_compute in ("<<<M144>>>" ++ check (runes_of_ascii "  packet rootA	{ int @lengthOf(
+    Packet // packet A { u8 x, }
+) // `tick` ""quote"" 'q'
+`// not a comment` , }
 ")).
-Eval vm_compute in ("<<<M2397>>>" ++ check (runes_of_ascii "MetaData A
+Eval vm_compute in ("<<<M48>>>" ++ check (runes_of_ascii "//x
+packet uint8x { u8 // packet A { u8 x, }
+roots `a\`	, match len
+as charz{
+[ 3 , """" ] : Z9_
+,
+    } , }
+")).
+Eval vm_compute in ("<<<M317>>>" ++ check (runes_of_ascii "packet BodyLength
 {
-i64
-chars	, } <// `tick` ""quote"" 'q'")).
-Eval vm_compute in ("<<<M1177>>>" ++ check (runes_of_ascii "options {leftPad =
-""it's""  u8x =1  tag=
-true }
+@calculatedFrom(	""""
+)// c
+char[  42 ]uint8x,} packet  len { uint64 a1  `{ , }`//x
+,}
 ")).
-Eval vm_compute in ("<<<M1767>>>" ++ check ([233]%N ++ runes_of_ascii "options { }options {  } // `tick` ""quote"" 'q'")).
-Eval vm_compute in ("<<<M3006>>>" ++ check (runes_of_ascii "MetaData M {
-    u8 x `a
-b`,
-    T t `a
-b`,
+Eval vm_compute in ("<<<M1266>>>" ++ check (runes_of_ascii "packet calculatedFrom { @tag( 4294967296 ) u
+// c
+msg_type , char[ 3 ] crc @lengthOf( len ) `u8 x,` , }")).
+Eval vm_compute in ("<<<M2040>>>" ++ check (runes_of_ascii "
+packet o {  @tag(
+	42
+)
+repeat
+
+x
+{
+	char[0123456789
+        // c
+]
+
+i64_ 
+,	} , }
+options
+
+{  }
+
+")).
+Eval vm_compute in ("<<<M931>>>" ++ check (runes_of_ascii "packet A {
+    Inner {
+        u8 x `
+`,
+        Deep {
+            u8 y `
+`,
+        },
+    },
 }")).
-Eval vm_compute in ("<<<M2560>>>" ++ check (runes_of_ascii "packet A { repeat x @calculatedFrom(""c""), }")).
-Eval vm_compute in ("<<<M1939>>>" ++ check (runes_of_ascii "
-packet	As { @calculatedFrom(//x
-""{,}""	)l")).
-Eval vm_compute in ("<<<M2376>>>" ++ check (runes_of_ascii "MetaData Packet { }packet	asx  { @length")).
-Eval vm_compute in ("<<<M3863>>>" ++ check (runes_of_ascii "
-
-  packet
-	A {u8
-    x
-	`
-x`
-
-    ,}
-")).
-Eval vm_compute in ("<<<M2111>>>" ++ check (runes_of_ascii "MetaData x
-i16// " ++ [128512]%N ++ runes_of_ascii " emoji
-{ stringy , }")).
-Eval vm_compute in ("<<<M2605>>>" ++ check (runes_of_ascii "packet A { match k as n { [] : B }, }")).
-Eval vm_compute in ("<<<M1321>>>" ++ check (runes_of_ascii "MetaData packetx { _x	metadata , }
-")).
-Eval vm_compute in ("<<<M305>>>" ++ check (runes_of_ascii "
-packet asx{ u64
-MetaDataX
+Eval vm_compute in ("<<<M1144>>>" ++ check (runes_of_ascii "packet Logon { @tag( 42 ) @rightPad ( // c
+' ' ) @leftPad ( ) repeat trueish { string T , } , }")).
+Eval vm_compute in ("<<<M109>>>" ++ check (runes_of_ascii "root
+    packet lengthOf { @tag(4294967296 ) @calculatedFrom(
+""" ++ [128512]%N ++ runes_of_ascii """)
+    i32
+msg_type `a\`
 , }
 ")).
-Eval vm_compute in ("<<<M4210>>>" ++ check (runes_of_ascii "packet A {
-    u8 x `d" ++ [11]%N ++ runes_of_ascii "`,// c" ++ [11]%N ++ runes_of_ascii "
-}")).
-Eval vm_compute in ("<<<M2784>>>" ++ check (runes_of_ascii "uint32 : ; 7 `tab	here` , char")).
-Eval vm_compute in ("<<<M2244>>>" ++ check (runes_of_ascii "MetaData Packet { }packet	asx")).
-Eval vm_compute in ("<<<M4471>>>" ++ check (runes_of_ascii "packet lengthOf {
-    // c
-}")).
-Eval vm_compute in ("<<<M904>>>" ++ check (runes_of_ascii "options { tag = 007
-    }
-")).
-Eval vm_compute in ("<<<M2093>>>" ++ check (runes_of_ascii "MetaData $A { u64 pack, }")).
-Eval vm_compute in ("<<<M2058>>>" ++ check (runes_of_ascii "MetaData A u64 { pack, }")).
-Eval vm_compute in ("<<<M4096>>>" ++ check (runes_of_ascii "
-packet A {
-}	// c" ++ [8203]%N ++ runes_of_ascii "
- 
-")).
-Eval vm_compute in ("<<<M979>>>" ++ check (runes_of_ascii "packet //
-roots  { }
-")).
-Eval vm_compute in ("<<<M2743>>>" ++ check (runes_of_ascii "#" ++ [65533]%N ++ runes_of_ascii "k" ++ [65533; 4]%N ++ runes_of_ascii "M" ++ [1580]%N ++ runes_of_ascii "!" ++ [65533]%N ++ runes_of_ascii "W" ++ [65533]%N ++ runes_of_ascii "3J" ++ [14]%N ++ runes_of_ascii "fa" ++ [65533]%N ++ runes_of_ascii "R" ++ [65533]%N ++ runes_of_ascii ")D")).
-Eval vm_compute in ("<<<M131>>>" ++ check (runes_of_ascii "  packet float { }
-")).
-Eval vm_compute in ("<<<M4414>>>" ++ check (runes_of_ascii "
-MetaData
-asx {} ")).
-Eval vm_compute in ("<<<M3087>>>" ++ check (runes_of_ascii "// c" ++ [8192]%N ++ runes_of_ascii "
-packet A {
-}")).
-Eval vm_compute in ("<<<M2566>>>" ++ check (runes_of_ascii "packet A { u8 x }")).
-Eval vm_compute in ("<<<M184>>>" ++ check (runes_of_ascii "packet As
-{
+Eval vm_compute in ("<<<M1784>>>" ++ check (runes_of_ascii "packet A
+	{
+match
+
+    k  as n{
+
+    [ 
+1
+
+, 
+22
+	, ""c c""
+]
+    :
+B 2:
+    C  }, 
 }
+
 ")).
-Eval vm_compute in ("<<<M2720>>>" ++ check (runes_of_ascii "I/Ek^_AdRTyN""]*")).
-Eval vm_compute in ("<<<M1970>>>" ++ check (runes_of_ascii "root
-packet")).
-Eval vm_compute in ("<<<M2634>>>" ++ check (runes_of_ascii "packet A }")).
-Eval vm_compute in ("<<<M2447>>>" ++ check (runes_of_ascii "trueish")).
-Eval vm_compute in ("<<<M3125>>>" ++ check (runes_of_ascii "// c 	")).
-Eval vm_compute in ("<<<M3070>>>" ++ check (runes_of_ascii "// c" ++ [160]%N)).
-Eval vm_compute in ("<<<M2514>>>" ++ check (runes_of_ascii """//""")).
-Eval vm_compute in ("<<<M2529>>>" ++ check (runes_of_ascii "a-b")).
-Eval vm_compute in ("<<<M2545>>>" ++ check (runes_of_ascii "	a")).
+Eval vm_compute in ("<<<M845>>>" ++ check (runes_of_ascii "packet A {
+  match k as n {
+    [""a"", 22, ""c c"", 4, ""e"", 66, ""g""] : B
+    2 : C
+  },
+}")).
+Eval vm_compute in ("<<<M851>>>" ++ check (runes_of_ascii "packet A {
+  match k as n {
+    [1, 22, 007, 4, 5, 66, 7, 8] : B,
+    2 : C
+  },
+}")).
+Eval vm_compute in ("<<<M1227>>>" ++ check (runes_of_ascii "packet o { @tag( 42 ) repeat x { char[
+// c
+0123456789 ] i64_ , } , } options { }")).
+Eval vm_compute in ("<<<M1381>>>" ++ check (runes_of_ascii "
+
+  root 
+packet
+    P	{ u8 s_u8
+
+, 
+repeat
+
+    u8 r_u8 ,	u16 b_len
+    ,  } ")).
+Eval vm_compute in ("<<<M2032>>>" ++ check (runes_of_ascii "  packet
+
+string_  // `tick` ""quote"" 'q'
+  	{  u 
+    //
+	// " ++ [128512]%N ++ runes_of_ascii " emoji
+		, 
+}")).
+Eval vm_compute in ("<<<M237>>>" ++ check (runes_of_ascii "// " ++ [128512]%N ++ runes_of_ascii " emoji
+packet	roots
+    // trailing space 
+    {
+    } // @lengthOf(")).
+Eval vm_compute in ("<<<M1309>>>" ++ check (runes_of_ascii "MetaData // c
+_x { zchar[ 4294967296 ] lengthOf `// not a comment` , }")).
+Eval vm_compute in ("<<<M1528>>>" ++ check (runes_of_ascii "MetaData
+
+    zchar
+
+{
+	zchar[ 3
+]  Pad
+
+    ,  }
+        // c
+")).
+Eval vm_compute in ("<<<M1180>>>" ++ check (runes_of_ascii "// top
+options // c0
+{ // c1
+u8x // c2
+= // c3
+3 // c4
+} // c5
+")).
+Eval vm_compute in ("<<<M1088>>>" ++ check (runes_of_ascii "packet A { // a
+ @tag(1) u8 x, // b
+ // c
+ @tag(2) u8 y, }")).
+Eval vm_compute in ("<<<M610>>>" ++ check (runes_of_ascii "MetaData
+    // trailing space 
+    matchKey
+{ u64")).
+Eval vm_compute in ("<<<M641>>>" ++ check (runes_of_ascii "MetaData
+    // trailing space 
+    matchK")).
+Eval vm_compute in ("<<<M1119>>>" ++ check (runes_of_ascii "MetaData zchar { zchar[ 3 ] Pad ,
+// c
+}")).
+Eval vm_compute in ("<<<M750>>>" ++ check (runes_of_ascii "@rightPad float64 char[ = char root")).
+Eval vm_compute in ("<<<M2006>>>" ++ check (runes_of_ascii "MetaData M {
+}// c
+
+packet A {
+}")).
+Eval vm_compute in ("<<<M1778>>>" ++ check (runes_of_ascii "
+// c
+		options{
+u8x 
+=
+	3}
+
+")).
+Eval vm_compute in ("<<<M1195>>>" ++ check (runes_of_ascii "options { u8x = 3 } // c
+")).
+Eval vm_compute in ("<<<M1897>>>" ++ check (runes_of_ascii "options {
+    u8x = 3
+}")).
+Eval vm_compute in ("<<<M690>>>" ++ check (runes_of_ascii "// c
+packet i64_ {")).
+Eval vm_compute in ("<<<M1050>>>" ++ check (runes_of_ascii "packet A {
+}
+// c" ++ [65279]%N)).
+Eval vm_compute in ("<<<M128>>>" ++ check (runes_of_ascii "packet i8i8
+{}
+")).
+Eval vm_compute in ("<<<M1767>>>" ++ check (runes_of_ascii "
+// c
+")).
+Eval vm_compute in ("<<<M1712>>>" ++ check (runes_of_ascii "  ")).
